@@ -6,6 +6,7 @@ Model: `Earverif/Model/Adm.lean`, `Earverif/Model/SelectItems.lean` (translitera
 `specItem`, `specSelect`) and the property theorems.  Helper lemmas: `Proofs/C06.lean`.
 -/
 import Earverif.Proofs.C06
+import Earverif.Props.C07
 
 namespace Earverif.Adm
 
@@ -34,9 +35,9 @@ def specStates (a : Adm) (prog : Option Nat) (ign : List Nat) : List State :=
 /-- the item of one channel: every field is a function of the item's own state
 (programme, content, object path), pack path `pp`, channel/track `ct` and the
 absoluteDistance `ad` found along `pp`. -/
-def specItem (a : Adm) (st : State) (ty : Nat) (pp : List Nat) (ct : Nat × Option Nat)
+def specItem (a : Adm) (st : State) (ty : Nat) (pp : List Nat) (ct : Nat × TSpec)
     (ad : Option Rat) : Item :=
-  { kind := ty, tracks := [trackSpec a.fmt ct.2], channels := [ct.1],
+  { kind := ty, tracks := [ct.2], channels := [ct.1],
     programme := st.programme, content := st.content, objPath := st.objPath,
     packPaths := [pp], extra := extraOf a st (some ct.1) ad,
     importances := [getImportance a st pp], blocks := (a.fmt.chan ct.1).blocks, hoa := none }
@@ -44,8 +45,9 @@ def specItem (a : Adm) (st : State) (ty : Nat) (pp : List Nat) (ct : Nat × Opti
 /-- `items adm = [ item(path, pack, ch) | state ∈ specStates, (pack, alloc) ∈ theAllocation(path.last), ch ∈ alloc ]`
 (in `Except`: the first error in iteration order is the result, as in Python). -/
 def specSelect (a : Adm) (given : Option Nat) (sel : List Nat) : Except Err (List Item) :=
-  if a.fmt.packs.any (·.type == 2) then .error .unsupported
-  else
+  match wrappedPacks a.fmt with
+  | .error e => .error e
+  | .ok _ =>
     match selectComplementary a sel with
     | .error e => .error e
     | .ok ign =>
@@ -107,16 +109,17 @@ theorem selectStates_eq_spec (a : Adm) (given : Option Nat) (ign : List Nat) :
 theorem select_eq_spec (a : Adm) (given : Option Nat) (sel : List Nat) :
     selectRenderingItems a given sel = specSelect a given sel := by
   unfold selectRenderingItems specSelect
-  split
-  · rfl
-  · cases selectComplementary a sel with
+  cases wrappedPacks a.fmt with
+  | error e => rfl
+  | ok wps =>
+    cases selectComplementary a sel with
     | error e => rfl
     | ok ign =>
       simp only [selectStates_eq_spec]
       rfl
 
 /-- the items of an Objects/DirectSpeakers channel are the declarative `specItem`. -/
-theorem singleItem_spec {a : Adm} {st : State} {ty p : Nat} {ct : Nat × Option Nat} {it : Item}
+theorem singleItem_spec {a : Adm} {st : State} {ty p : Nat} {ct : Nat × TSpec} {it : Item}
     (h : singleItem a st ty p ct = .ok it) :
     ∃ pp ad, getPackFormatPath a.fmt p ct.1 = .ok pp ∧
       getPathParam (pp.map fun q => (a.fmt.pack q).absDist) = .ok ad ∧
@@ -160,7 +163,7 @@ theorem zip_map_fst_snd {α β : Type} (l : List (α × β)) : (l.map (·.1)).zi
   | nil => rfl
   | cons x xs ih => simp [ih]
 
-theorem singleItem_own {a : Adm} {st : State} {ty p : Nat} {ct : Nat × Option Nat} {it : Item}
+theorem singleItem_own {a : Adm} {st : State} {ty p : Nat} {ct : Nat × TSpec} {it : Item}
     (hty : ty ≠ 4) (h : singleItem a st ty p ct = .ok it) : it.OwnData a st := by
   obtain ⟨pp, ad, _, had, rfl⟩ := singleItem_spec h
   refine ⟨⟨rfl, rfl, rfl⟩, ?_, rfl⟩
@@ -169,7 +172,6 @@ theorem singleItem_own {a : Adm} {st : State} {ty p : Nat} {ct : Nat × Option N
 theorem hoaItem_own {a : Adm} {st : State} {ap : AllocPack} {it : Item}
     (h : hoaItem a st ap = .ok it) : it.OwnData a st ∧ it.kind = 4 := by
   unfold hoaItem at h
-  dsimp only at h
   split at h
   · cases h
   · rename_i ppc _
@@ -177,20 +179,12 @@ theorem hoaItem_own {a : Adm} {st : State} {ap : AllocPack} {it : Item}
     · cases h
     · split at h
       · cases h
-      · split at h
-        · cases h
-        · split at h
-          · cases h
-          · split at h
-            · cases h
-            · split at h
-              · cases h
-              · rename_i ex hex
-                cases h
-                refine ⟨⟨⟨rfl, rfl, rfl⟩, ?_, ?_⟩, rfl⟩
-                · simp only [zip_map_fst_snd, Item.freqChannel, if_true]
-                  exact hex
-                · simp [List.map_map]
+      · rename_i ex hex
+        cases h
+        refine ⟨⟨⟨rfl, rfl, rfl⟩, ?_, ?_⟩, rfl⟩
+        · simp only [zip_map_fst_snd, Item.freqChannel, if_true]
+          exact hex
+        · simp [List.map_map]
 
 theorem itemsOfPack_own {a : Adm} {st : State} {ap : AllocPack} {its : List Item}
     (h : itemsOfPack a st ap = .ok its) : ∀ it ∈ its, it.OwnData a st := by
@@ -367,6 +361,35 @@ theorem specStates_nodup {a : Adm} (hnd : NoDupRefs a) (prog : Option Nat) (ign 
         simp only [State.mk.injEq, Option.some.injEq, true_and] at he
         exact hne he.1.symm
 
+theorem getD_mem_or_default {α : Type} (l : List α) (i : Nat) (d : α) : l.getD i d ∈ l ∨ l.getD i d = d := by
+  by_cases h : i < l.length
+  · left; simp [List.getD_eq_getElem?_getD, List.getElem?_eq_getElem h]
+  · right; simp [List.getD_eq_getElem?_getD, List.getElem?_eq_none (Nat.le_of_not_lt h)]
+
+/-- the references of the content part into the audioObject list are in range. -/
+structure ObjRefsOK (a : Adm) : Prop where
+  cont : ∀ c, ∀ r ∈ (a.cont c).objects, r < a.objects.length
+  subs : ∀ o, ∀ x ∈ a.subs o, x < a.objects.length
+  comps : ∀ o, ∀ x ∈ (a.obj o).complementary, x < a.objects.length
+
+theorem objRefsOK_of_refsInRange {a : Adm} (h : a.refsInRange = true) : ObjRefsOK a := by
+  unfold Adm.refsInRange at h
+  simp only [Bool.and_eq_true, List.all_eq_true, decide_eq_true_eq] at h
+  obtain ⟨⟨⟨⟨⟨⟨⟨_, hc⟩, ho⟩, _⟩, _⟩, _⟩, _⟩, _⟩ := h
+  refine ⟨fun c r hr => ?_, fun o x hx => ?_, fun o x hx => ?_⟩
+  · unfold Adm.cont at hr
+    rcases getD_mem_or_default a.contents c default with hm | hd
+    · exact hc _ hm r hr
+    · rw [hd] at hr; cases hr
+  · unfold Adm.subs Adm.obj at hx
+    rcases getD_mem_or_default a.objects o default with hm | hd
+    · exact (ho _ hm).1.2 x hx
+    · rw [hd] at hx; cases hx
+  · unfold Adm.obj at hx
+    rcases getD_mem_or_default a.objects o default with hm | hd
+    · exact (ho _ hm).2 x hx
+    · rw [hd] at hx; cases hx
+
 /-- which states there are (programme case): one per content of the programme, root object of the
 content and chain of sub-objects from that root that avoids ignored objects. -/
 theorem mem_specStates_iff {a : Adm} (hac : Acyclic a) (hrange : a.refsInRange = true)
@@ -374,20 +397,7 @@ theorem mem_specStates_iff {a : Adm} (hac : Acyclic a) (hrange : a.refsInRange =
     st ∈ specStates a (some q) ign ↔
       ∃ c ∈ (a.prog q).contents, ∃ r ∈ (a.cont c).objects, ∃ path, Chain a.subs r path ∧
         notIgnored ign path = true ∧ st = ⟨some q, some c, some path⟩ := by
-  have hr : ∀ c, ∀ r ∈ (a.cont c).objects, r < a.objects.length := by
-    intro c r hrc
-    unfold Adm.refsInRange at hrange
-    simp only [Bool.and_eq_true, List.all_eq_true, decide_eq_true_eq] at hrange
-    have h2 := hrange.1.1.1.1.1.2
-    unfold Adm.cont at hrc
-    by_cases hc : c < a.contents.length
-    · have hm : a.contents.getD c default ∈ a.contents := by
-        simp [List.getD_eq_getElem?_getD, List.getElem?_eq_getElem hc]
-      exact h2 _ hm r hrc
-    · have : a.contents.getD c default = default := by
-        simp [List.getD_eq_getElem?_getD, List.getElem?_eq_none (Nat.le_of_not_lt hc)]
-      rw [this] at hrc
-      cases hrc
+  have hr := (objRefsOK_of_refsInRange hrange).cont
   unfold specStates
   simp only [hne, if_false, List.mem_flatMap, List.mem_map, specPaths, List.mem_filter]
   constructor
@@ -545,19 +555,31 @@ theorem selectComplementary_no_objects {a : Adm} (ho : a.objects = []) :
     selectComplementary a [] = .ok [] := by
   simp [selectComplementary, compRoots, ho, compAllSelected]
 
-/-- **chna_only_all_tracks**: without programmes and objects, selection allocates *all*
-audioTrackUIDs of the document (no pack references, no silent tracks) and renders every
-allocated pack; no programme/content/object is attached to the items. -/
-theorem chna_only_all_tracks {a : Adm} (hp : a.programmes = []) (ho : a.objects = [])
-    (hm : a.fmt.packs.any (·.type == 2) = false) (given : Option Nat) :
+/-- **chna_only_all_tracks**: without programmes and objects, selection is the items of the single
+CHNA-only state: *all* audioTrackUIDs of the document are allocated (`chna_only_problem`: no pack
+references, no silent tracks), every allocated pack is rendered, and no programme / content /
+object is attached to the items. -/
+theorem chna_only_all_tracks {a : Adm} (hp : a.programmes = []) (ho : a.objects = []) (given : Option Nat) :
     selectRenderingItems a given [] =
-      match allocateChna a.fmt (List.range a.fmt.trackUIDs.length) with
+      match wrappedPacks a.fmt with
       | .error e => .error e
-      | .ok packs => flatMapE (itemsOfPack a ⟨none, none, none⟩) packs := by
+      | .ok _ => itemsOfState a ⟨none, none, none⟩ := by
   rw [select_eq_spec]
   unfold specSelect
-  simp only [hm, Bool.false_eq_true, if_false, selectComplementary_no_objects ho, specStates, hp, ho,
-    and_self, if_true, flatMapE_singleton, selectPackMapping]
+  cases wrappedPacks a.fmt with
+  | error e => rfl
+  | ok wps =>
+    simp only [selectComplementary_no_objects ho, specStates, hp, ho, and_self, if_true, flatMapE_singleton]
+    rfl
+
+/-- the allocation problem of the CHNA-only state: every audioTrackUID, in declaration order,
+`pack_refs = None`, `num_silent_tracks = 0`. -/
+theorem chna_only_problem (a : Adm) (wps : List WPack) :
+    (allocProblem a ⟨none, none, none⟩ wps).2 = List.range a.fmt.trackUIDs.length ∧
+    (allocProblem a ⟨none, none, none⟩ wps).1.packRefs = none ∧
+    (allocProblem a ⟨none, none, none⟩ wps).1.numSilent = 0 ∧
+    (allocProblem a ⟨none, none, none⟩ wps).1.tracks.length = a.fmt.trackUIDs.length := by
+  simp [allocProblem]
 
 theorem selectProgramme_none (a : Adm) : selectProgramme a none = minById a.programmes := by
   unfold selectProgramme
@@ -636,8 +658,10 @@ theorem itemsOfState_strip (a : Adm) (st : State) : itemsOfState a.strip st = it
     intro st ap; unfold itemsOfPack
     simp only [strip_fmt, hhoa,
       show ∀ ty p, singleItem a.strip st ty p = singleItem a st ty p from fun ty p => funext (hsingle st ty p)]
+  have hprob : ∀ wps, allocProblem a.strip st wps = allocProblem a st wps := by
+    intro wps; unfold allocProblem; cases st.objPath <;> simp [strip_obj, strip_fmt]
   have hmap : selectPackMapping a.strip st = selectPackMapping a st := by
-    unfold selectPackMapping; cases st.objPath <;> simp [strip_obj, strip_fmt]
+    unfold selectPackMapping; simp only [strip_fmt, hprob]
   unfold itemsOfState
   rw [hmap]
   cases selectPackMapping a st with
@@ -772,10 +796,10 @@ theorem select_perm_partial {a a' : Adm} (h : ChildPerm a a') (given : Option Na
     have := congrArg Adm.fmt h.strip
     exact this
   rw [hfmt, h.selectComplementary, selectProgramme_congr h.keys]
-  split at hs
-  · cases hs
-  · rename_i hm
-    simp only [hm]
+  cases hw : wrappedPacks a.fmt with
+  | error e => simp [hw] at hs
+  | ok wps =>
+    simp only [hw] at hs ⊢
     cases hc : Earverif.Adm.selectComplementary a sel with
     | error e => simp [hc] at hs
     | ok ign =>
@@ -897,6 +921,1791 @@ theorem select_programme_order_independent {a a' : Adm} (hp : a'.programmes.Perm
   have k2 := hmin' _ (hp.mem_iff.2 m1)
   exact eq_of_nodup_map hnd m2 m1 (by omega)
 
+/-! ## select_perm for re-numbering the audioObjects (declaration order) -/
+
+theorem flatMap_congr' {α β : Type} {l : List α} {f g : α → List β} (h : ∀ x ∈ l, f x = g x) :
+    l.flatMap f = l.flatMap g := by
+  induction l with
+  | nil => rfl
+  | cons x xs ih =>
+    simp only [List.flatMap_cons, h x (List.mem_cons_self ..)]
+    rw [ih fun y hy => h y (List.mem_cons_of_mem _ hy)]
+
+theorem Chain.all_lt {ch : Nat → List Nat} {n : Nat} (hlt : ∀ i, i < n → ∀ x ∈ ch i, x < n) {r p}
+    (h : Chain ch r p) (hr : r < n) : ∀ o ∈ p, o < n := by
+  induction h with
+  | single r => intro o ho; simp at ho; omega
+  | cons r s p hs _ ih =>
+    intro o ho
+    rcases List.mem_cons.1 ho with rfl | ho
+    · exact hr
+    · exact ih (hlt r hr s hs) o ho
+
+theorem pathsFrom_rename {ch ch' : Nat → List Nat} {ρ : Nat → Nat} {n : Nat}
+    (hch : ∀ i, i < n → ch' (ρ i) = (ch i).map ρ) (hlt : ∀ i, i < n → ∀ x ∈ ch i, x < n) :
+    ∀ fuel r, r < n → pathsFrom ch' fuel (ρ r) = (pathsFrom ch fuel r).map (List.map ρ)
+  | 0, _, _ => rfl
+  | fuel + 1, r, hr => by
+    simp only [pathsFrom, hch r hr, List.flatMap_map, List.map_cons, List.map_nil, List.map_flatMap,
+      List.map_map]
+    congr 1
+    apply flatMap_congr'
+    intro s hs
+    rw [pathsFrom_rename hch hlt fuel s (hlt r hr s hs), List.map_map]
+    rfl
+
+theorem notIgnored_rename {ρ : Nat → Nat} {n : Nat} {ign ign' : List Nat}
+    (hign : ∀ o, o < n → (ρ o ∈ ign' ↔ o ∈ ign)) :
+    ∀ p : List Nat, (∀ o ∈ p, o < n) → notIgnored ign' (p.map ρ) = notIgnored ign p
+  | [], _ => rfl
+  | x :: xs, h => by
+    have ih := notIgnored_rename hign xs (fun o ho => h o (List.mem_cons_of_mem _ ho))
+    have hx := hign x (h x (List.mem_cons_self ..))
+    unfold notIgnored at ih ⊢
+    simp only [List.map_cons, List.any_cons, Bool.not_or] at ih ⊢
+    rw [ih]
+    congr 1
+    rw [Bool.eq_iff_iff]
+    simp [hx]
+
+
+/-! ### re-numbering the audioObjects -/
+
+/-- an audioObject with its object references renamed. -/
+def renObj (ρ : Nat → Nat) (o : Obj) : Obj :=
+  { o with subObjects := o.subObjects.map ρ, complementary := o.complementary.map ρ }
+
+/-- `a'` is `a` with the audioObjects declared in another order: object `i` of `a` is object
+`ρ i` of `a'`, and every reference to an audioObject is remapped through `ρ`. -/
+structure ObjRenamed (ρ : Nat → Nat) (a a' : Adm) : Prop where
+  fmt : a'.fmt = a.fmt
+  programmes : a'.programmes = a.programmes
+  contents : a'.contents = a.contents.map fun c => { c with objects := c.objects.map ρ }
+  nobj : a'.objects.length = a.objects.length
+  obj : ∀ i, i < a.objects.length → a'.obj (ρ i) = renObj ρ (a.obj i)
+  perm : ((List.range a.objects.length).map ρ).Perm (List.range a.objects.length)
+
+namespace ObjRenamed
+variable {ρ : Nat → Nat} {a a' : Adm}
+
+theorem lt (h : ObjRenamed ρ a a') {i : Nat} (hi : i < a.objects.length) : ρ i < a.objects.length := by
+  have : ρ i ∈ (List.range a.objects.length).map ρ := List.mem_map.2 ⟨i, List.mem_range.2 hi, rfl⟩
+  exact List.mem_range.1 (h.perm.mem_iff.1 this)
+
+theorem inj (h : ObjRenamed ρ a a') {i j : Nat} (hi : i < a.objects.length) (hj : j < a.objects.length)
+    (hij : ρ i = ρ j) : i = j :=
+  eq_of_nodup_map (h.perm.nodup_iff.2 List.nodup_range) (List.mem_range.2 hi) (List.mem_range.2 hj) hij
+
+theorem surj (h : ObjRenamed ρ a a') {j : Nat} (hj : j < a.objects.length) :
+    ∃ i, i < a.objects.length ∧ ρ i = j := by
+  obtain ⟨i, hi, rfl⟩ := List.mem_map.1 (h.perm.mem_iff.2 (List.mem_range.2 hj))
+  exact ⟨i, List.mem_range.1 hi, rfl⟩
+
+theorem mem_map_iff (h : ObjRenamed ρ a a') {x : Nat} {l : List Nat} (hx : x < a.objects.length)
+    (hl : ∀ y ∈ l, y < a.objects.length) : ρ x ∈ l.map ρ ↔ x ∈ l := by
+  constructor
+  · intro hm
+    obtain ⟨y, hy, hxy⟩ := List.mem_map.1 hm
+    rw [← h.inj (hl y hy) hx hxy]; exact hy
+  · exact fun hm => List.mem_map.2 ⟨x, hm, rfl⟩
+
+theorem subs (h : ObjRenamed ρ a a') {i : Nat} (hi : i < a.objects.length) :
+    a'.subs (ρ i) = (a.subs i).map ρ := by
+  unfold Adm.subs; rw [h.obj i hi]; rfl
+
+theorem comps (h : ObjRenamed ρ a a') {i : Nat} (hi : i < a.objects.length) :
+    (a'.obj (ρ i)).complementary = (a.obj i).complementary.map ρ := by
+  rw [h.obj i hi]; rfl
+
+theorem cont (h : ObjRenamed ρ a a') (c : Nat) :
+    a'.cont c = { a.cont c with objects := (a.cont c).objects.map ρ } := by
+  unfold Adm.cont
+  rw [h.contents]
+  exact getD_map_default (fun c : Content => { c with objects := c.objects.map ρ }) a.contents c default
+
+theorem prog (h : ObjRenamed ρ a a') (p : Nat) : a'.prog p = a.prog p := by
+  unfold Adm.prog; rw [h.programmes]
+
+theorem specPaths (h : ObjRenamed ρ a a') (hok : ObjRefsOK a) {ign ign' : List Nat}
+    (hign : ∀ o, o < a.objects.length → (ρ o ∈ ign' ↔ o ∈ ign)) {r : Nat} (hr : r < a.objects.length) :
+    specPaths a' ign' (ρ r) = (specPaths a ign r).map (List.map ρ) := by
+  unfold Earverif.Adm.specPaths objectPathsFrom
+  rw [h.nobj, pathsFrom_rename (fun i hi => h.subs hi) (fun i _ => hok.subs i) _ r hr, List.filter_map]
+  congr 1
+  apply List.filter_congr
+  intro p hp
+  exact notIgnored_rename hign p
+    ((chain_of_mem_pathsFrom _ _ _ hp).all_lt (fun i _ => hok.subs i) hr)
+
+theorem rootObjects (h : ObjRenamed ρ a a') (hok : ObjRefsOK a) :
+    (rootObjects a').Perm ((rootObjects a).map ρ) := by
+  unfold Earverif.Adm.rootObjects
+  rw [h.nobj]
+  dsimp only
+  refine List.Perm.trans (h.perm.symm.filter _) ?_
+  rw [List.filter_map]
+  apply List.Perm.of_eq
+  congr 1
+  apply List.filter_congr
+  intro i hi
+  have hi := List.mem_range.1 hi
+  simp only [Function.comp]
+  congr 1
+  rw [Bool.eq_iff_iff]
+  simp only [List.contains_iff_mem, mem_nonRoot, h.nobj]
+  constructor
+  · rintro ⟨o', ho', hx⟩
+    obtain ⟨o, ho, rfl⟩ := h.surj ho'
+    rw [h.subs ho] at hx
+    exact ⟨o, ho, (h.mem_map_iff hi (hok.subs o)).1 hx⟩
+  · rintro ⟨o, ho, hx⟩
+    exact ⟨ρ o, h.lt ho, by rw [h.subs ho]; exact List.mem_map.2 ⟨i, hx, rfl⟩⟩
+
+end ObjRenamed
+
+/-- a state with its object path renamed. -/
+def renState (ρ : Nat → Nat) (st : State) : State := { st with objPath := st.objPath.map (List.map ρ) }
+
+theorem ObjRenamed.specStates {ρ : Nat → Nat} {a a' : Adm} (h : ObjRenamed ρ a a') (hok : ObjRefsOK a)
+    {ign ign' : List Nat} (hign : ∀ o, o < a.objects.length → (ρ o ∈ ign' ↔ o ∈ ign)) (prog : Option Nat) :
+    (specStates a' prog ign').Perm ((specStates a prog ign).map (renState ρ)) := by
+  unfold Earverif.Adm.specStates
+  have hno : a'.objects = [] ↔ a.objects = [] := by
+    rw [← List.length_eq_zero_iff, ← List.length_eq_zero_iff, h.nobj]
+  simp only [h.programmes, hno]
+  split
+  · exact .refl _
+  · cases prog with
+    | none =>
+      simp only [List.map_flatMap, List.map_map]
+      refine List.Perm.trans (List.Perm.flatMap_right _ (h.rootObjects hok)) ?_
+      rw [List.flatMap_map]
+      apply List.Perm.of_eq
+      apply flatMap_congr'
+      intro r hr
+      have hr : r < a.objects.length := by
+        simp only [Earverif.Adm.rootObjects, List.mem_filter, List.mem_range] at hr; exact hr.1
+      rw [h.specPaths hok hign hr, List.map_map]
+      rfl
+    | some p =>
+      apply List.Perm.of_eq
+      simp only [List.map_flatMap, List.map_map, h.prog, h.cont, List.flatMap_map]
+      apply flatMap_congr'
+      intro c _
+      apply flatMap_congr'
+      intro r hr
+      rw [h.specPaths hok hign (hok.cont c r hr), List.map_map]
+      rfl
+
+
+/-! ### items of a renamed state -/
+
+/-- an item with its object path renamed. -/
+def renItem (ρ : Nat → Nat) (it : Item) : Item := { it with objPath := it.objPath.map (List.map ρ) }
+
+theorem mapE_map_comm {α β : Type} {f f' : α → Except Err β} {g : β → β} :
+    ∀ {l : List α}, (∀ x ∈ l, f' x = (f x).map g) → mapE f' l = (mapE f l).map (List.map g)
+  | [], _ => rfl
+  | x :: xs, h => by
+    have ih := mapE_map_comm (f := f) (f' := f') (g := g) (l := xs) fun y hy => h y (List.mem_cons_of_mem _ hy)
+    simp only [mapE, h x (List.mem_cons_self ..), ih]
+    cases f x <;> simp only [Except.map]
+    cases mapE f xs <;> simp
+
+theorem flatMapE_map_comm {α β : Type} {f f' : α → Except Err (List β)} {g : β → β} {l : List α}
+    (h : ∀ x ∈ l, f' x = (f x).map (List.map g)) : flatMapE f' l = (flatMapE f l).map (List.map g) := by
+  unfold flatMapE
+  rw [mapE_map_comm h]
+  cases mapE f l <;> simp [Except.map, List.map_flatten]
+
+theorem getLastD_map {α β : Type} (f : α → β) : ∀ (l : List α) (a : α), (l.map f).getLastD (f a) = f (l.getLastD a)
+  | [], _ => rfl
+  | x :: xs, a => by simp only [List.map_cons, List.getLastD_cons]; exact getLastD_map f xs x
+
+theorem getLastD_mem {α : Type} : ∀ (l : List α) (a : α), l.getLastD a = a ∨ l.getLastD a ∈ l
+  | [], _ => Or.inl rfl
+  | x :: xs, a => by
+    simp only [List.getLastD_cons]
+    rcases getLastD_mem xs x with h | h
+    · right; rw [h]; exact List.mem_cons_self ..
+    · right; exact List.mem_cons_of_mem _ h
+
+theorem getLastD_map_ne_nil {ρ : Nat → Nat} {p : List Nat} (hp : p ≠ []) :
+    (p.map ρ).getLastD 0 = ρ (p.getLastD 0) ∧ p.getLastD 0 ∈ p := by
+  cases p with
+  | nil => exact absurd rfl hp
+  | cons x xs =>
+    simp only [List.map_cons, List.getLastD_cons]
+    refine ⟨getLastD_map ρ xs x, ?_⟩
+    rcases getLastD_mem xs x with h | h
+    · rw [h]; exact List.mem_cons_self ..
+    · exact List.mem_cons_of_mem _ h
+
+/-- the items of a state whose object path is renamed, in a document whose objects are looked
+up through the renaming, are the renamed items. -/
+theorem itemsOfState_rename {b b' : Adm} {ρ : Nat → Nat} {n : Nat} (hfmt : b'.fmt = b.fmt)
+    (hprog : ∀ p, b'.prog p = b.prog p) (hcont : ∀ c, b'.cont c = b.cont c)
+    (hobj : ∀ i, i < n → b'.obj (ρ i) = b.obj i) (st : State) {p : List Nat} (hp : st.objPath = some p)
+    (hne : p ≠ []) (hlt : ∀ o ∈ p, o < n) :
+    itemsOfState b' (renState ρ st) = (itemsOfState b st).map (List.map (renItem ρ)) := by
+  obtain ⟨pr, co, op⟩ := st
+  simp only at hp
+  subst hp
+  have hlast := getLastD_map_ne_nil (ρ := ρ) hne
+  have hleafobj : b'.obj ((p.map ρ).getLastD 0) = b.obj (p.getLastD 0) := by
+    rw [hlast.1]; exact hobj _ (hlt _ hlast.2)
+  have hleaf : State.leaf b' (renState ρ ⟨pr, co, some p⟩) = State.leaf b ⟨pr, co, some p⟩ := by
+    show some (b'.obj ((p.map ρ).getLastD 0)) = some (b.obj (p.getLastD 0))
+    rw [hleafobj]
+  have havs : getAvs b' (renState ρ ⟨pr, co, some p⟩) = getAvs b ⟨pr, co, some p⟩ := by
+    unfold getAvs; rw [hleaf]; simp only [renState, hprog, hcont]
+  have hextra : ∀ ch ad, extraOf b' (renState ρ ⟨pr, co, some p⟩) ch ad = extraOf b ⟨pr, co, some p⟩ ch ad := by
+    intro ch ad; unfold extraOf; rw [havs, hleaf]; simp only [renState, hprog, hfmt]
+  have hged : ∀ ppc ch, getExtraData b' (renState ρ ⟨pr, co, some p⟩) ppc ch = getExtraData b ⟨pr, co, some p⟩ ppc ch := by
+    intro ppc ch; unfold getExtraData; simp only [hfmt, hextra]
+  have himp : ∀ pp, getImportance b' (renState ρ ⟨pr, co, some p⟩) pp = getImportance b ⟨pr, co, some p⟩ pp := by
+    intro pp
+    unfold getImportance
+    simp only [renState, Option.map_some, List.map_map, hfmt]
+    congr 2
+    apply List.map_congr_left
+    intro o ho
+    exact congrArg Obj.importance (hobj o (hlt o ho))
+  have hsingle : ∀ ty q ct, singleItem b' (renState ρ ⟨pr, co, some p⟩) ty q ct =
+      (singleItem b ⟨pr, co, some p⟩ ty q ct).map (renItem ρ) := by
+    intro ty q ct
+    unfold singleItem
+    simp only [hfmt, hged, himp]
+    split
+    · rfl
+    · split <;> rfl
+  have hhoa : ∀ ap, hoaItem b' (renState ρ ⟨pr, co, some p⟩) ap = (hoaItem b ⟨pr, co, some p⟩ ap).map (renItem ρ) := by
+    intro ap
+    unfold hoaItem
+    simp only [hfmt, hged, himp]
+    repeat' split
+    all_goals rfl
+  have hpack : ∀ ap, itemsOfPack b' (renState ρ ⟨pr, co, some p⟩) ap =
+      (itemsOfPack b ⟨pr, co, some p⟩ ap).map (List.map (renItem ρ)) := by
+    intro ap
+    unfold itemsOfPack
+    simp only [hfmt, hhoa]
+    split
+    · exact mapE_map_comm fun ct _ => hsingle _ _ ct
+    · split
+      · cases hoaItem b ⟨pr, co, some p⟩ ap <;> rfl
+      · rfl
+  have hmap : selectPackMapping b' (renState ρ ⟨pr, co, some p⟩) = selectPackMapping b ⟨pr, co, some p⟩ := by
+    have hprob : ∀ wps, allocProblem b' (renState ρ ⟨pr, co, some p⟩) wps = allocProblem b ⟨pr, co, some p⟩ wps := by
+      intro wps; simp only [allocProblem, renState, Option.map_some, hleafobj, hfmt]
+    simp only [selectPackMapping, hfmt, hprob]
+  unfold itemsOfState
+  rw [hmap]
+  cases selectPackMapping b ⟨pr, co, some p⟩ with
+  | error e => rfl
+  | ok packs => exact flatMapE_map_comm fun ap _ => hpack ap
+
+
+/-! ### complementary-object selection under re-numbering -/
+
+theorem selectComplementary_ok_iff (a : Adm) (sel : List Nat) :
+    (∃ ign, selectComplementary a sel = .ok ign) ↔
+      (∀ s ∈ sel, s ∈ (compRoots a).flatMap (compGroup a)) ∧
+      (∀ r ∈ compRoots a, ((compGroup a r).filter ((compAllSelected a sel).contains ·)).length ≤ 1) := by
+  unfold selectComplementary
+  dsimp only
+  constructor
+  · rintro ⟨ign, h⟩
+    split at h
+    · cases h
+    · rename_i h1
+      split at h
+      · cases h
+      · rename_i h2
+        simp only [List.any_eq_true, not_exists, not_and, Bool.not_eq_true', decide_eq_true_eq] at h1 h2
+        refine ⟨fun s hs => by simpa using h1 s hs, fun r hr => ?_⟩
+        have := h2 r hr
+        omega
+  · rintro ⟨h1, h2⟩
+    have c1 : ¬ (sel.any fun s => !((compRoots a).flatMap (compGroup a)).contains s) = true := by
+      simp only [List.any_eq_true, not_exists, not_and, Bool.not_eq_true']
+      intro s hs; simpa using h1 s hs
+    have c2 : ¬ ((compRoots a).any fun r =>
+        decide (((compGroup a r).filter ((compAllSelected a sel).contains ·)).length > 1)) = true := by
+      simp only [List.any_eq_true, not_exists, not_and, decide_eq_true_eq]
+      intro r hr; have := h2 r hr; omega
+    simp only [c1, c2]
+    exact ⟨_, rfl⟩
+
+namespace ObjRenamed
+variable {ρ : Nat → Nat} {a a' : Adm}
+
+theorem compRoots_perm (h : ObjRenamed ρ a a') : (compRoots a').Perm ((compRoots a).map ρ) := by
+  unfold compRoots
+  rw [h.nobj]
+  refine List.Perm.trans (h.perm.symm.filter _) ?_
+  rw [List.filter_map]
+  apply List.Perm.of_eq
+  congr 1
+  apply List.filter_congr
+  intro i hi
+  simp only [Function.comp, h.comps (List.mem_range.1 hi)]
+  cases (a.obj i).complementary <;> simp
+
+theorem compRoots_lt (a : Adm) {r : Nat} (hr : r ∈ compRoots a) : r < a.objects.length := by
+  simp only [compRoots, List.mem_filter, List.mem_range] at hr; exact hr.1
+
+theorem mem_compRoots (h : ObjRenamed ρ a a') {r' : Nat} :
+    r' ∈ compRoots a' ↔ ∃ r ∈ compRoots a, ρ r = r' := by
+  rw [h.compRoots_perm.mem_iff, List.mem_map]
+
+theorem compGroup (h : ObjRenamed ρ a a') {r : Nat} (hr : r < a.objects.length) :
+    compGroup a' (ρ r) = (compGroup a r).map ρ := by
+  unfold Earverif.Adm.compGroup; rw [h.comps hr]; rfl
+
+theorem compGroup_lt (hok : ObjRefsOK a) {r : Nat} (hr : r < a.objects.length) :
+    ∀ x ∈ Earverif.Adm.compGroup a r, x < a.objects.length := by
+  intro x hx
+  rcases List.mem_cons.1 hx with rfl | hx
+  · exact hr
+  · exact hok.comps r x hx
+
+theorem mem_allComp (h : ObjRenamed ρ a a') (hok : ObjRefsOK a) {x : Nat} (hx : x < a.objects.length) :
+    ρ x ∈ (compRoots a').flatMap (Earverif.Adm.compGroup a') ↔ x ∈ (compRoots a).flatMap (Earverif.Adm.compGroup a) := by
+  simp only [List.mem_flatMap, h.mem_compRoots]
+  constructor
+  · rintro ⟨_, ⟨r, hr, rfl⟩, hm⟩
+    have hrl := compRoots_lt a hr
+    rw [h.compGroup hrl] at hm
+    exact ⟨r, hr, (h.mem_map_iff hx (compGroup_lt hok hrl)).1 hm⟩
+  · rintro ⟨r, hr, hm⟩
+    refine ⟨ρ r, ⟨r, hr, rfl⟩, ?_⟩
+    rw [h.compGroup (compRoots_lt a hr)]
+    exact List.mem_map.2 ⟨x, hm, rfl⟩
+
+theorem groupHit (h : ObjRenamed ρ a a') (hok : ObjRefsOK a) {sel : List Nat}
+    (hsel : ∀ s ∈ sel, s < a.objects.length) {r : Nat} (hr : r < a.objects.length) :
+    ((Earverif.Adm.compGroup a' (ρ r)).any fun x => (sel.map ρ).contains x) =
+      ((Earverif.Adm.compGroup a r).any fun x => sel.contains x) := by
+  rw [h.compGroup hr, List.any_map, Bool.eq_iff_iff]
+  simp only [List.any_eq_true, Function.comp, List.contains_iff_mem]
+  constructor
+  · rintro ⟨x, hx, hm⟩; exact ⟨x, hx, (h.mem_map_iff (compGroup_lt hok hr x hx) hsel).1 hm⟩
+  · rintro ⟨x, hx, hm⟩; exact ⟨x, hx, List.mem_map.2 ⟨x, hm, rfl⟩⟩
+
+theorem mem_allSelected (h : ObjRenamed ρ a a') (hok : ObjRefsOK a) {sel : List Nat}
+    (hsel : ∀ s ∈ sel, s < a.objects.length) {x : Nat} (hx : x < a.objects.length) :
+    ρ x ∈ compAllSelected a' (sel.map ρ) ↔ x ∈ compAllSelected a sel := by
+  unfold compAllSelected
+  simp only [List.mem_append, List.mem_filter, h.mem_compRoots]
+  constructor
+  · rintro (hm | ⟨⟨r, hr, hrx⟩, hn⟩)
+    · exact Or.inl ((h.mem_map_iff hx hsel).1 hm)
+    · have hrl := compRoots_lt a hr
+      have := h.inj hrl hx hrx
+      subst this
+      rw [h.groupHit hok hsel hrl] at hn
+      exact Or.inr ⟨hr, hn⟩
+  · rintro (hm | ⟨hr, hn⟩)
+    · exact Or.inl (List.mem_map.2 ⟨x, hm, rfl⟩)
+    · refine Or.inr ⟨⟨x, hr, rfl⟩, ?_⟩
+      rw [h.groupHit hok hsel hx]; exact hn
+
+/-- complementary-object selection commutes with re-numbering the audioObjects: it succeeds
+for the same selections, and ignores the renamed objects. -/
+theorem selectComplementary (h : ObjRenamed ρ a a') (hok : ObjRefsOK a) {sel ign : List Nat}
+    (hsel : ∀ s ∈ sel, s < a.objects.length) (hs : Earverif.Adm.selectComplementary a sel = .ok ign) :
+    ∃ ign', Earverif.Adm.selectComplementary a' (sel.map ρ) = .ok ign' ∧
+      ∀ o, o < a.objects.length → (ρ o ∈ ign' ↔ o ∈ ign) := by
+  obtain ⟨h1, h2⟩ := (selectComplementary_ok_iff a sel).1 ⟨ign, hs⟩
+  have hex : ∃ ign', Earverif.Adm.selectComplementary a' (sel.map ρ) = .ok ign' := by
+    rw [selectComplementary_ok_iff]
+    constructor
+    · intro s' hs'
+      obtain ⟨s, hs, rfl⟩ := List.mem_map.1 hs'
+      exact (h.mem_allComp hok (hsel s hs)).2 (h1 s hs)
+    · intro r' hr'
+      obtain ⟨r, hr, rfl⟩ := h.mem_compRoots.1 hr'
+      have hrl := compRoots_lt a hr
+      rw [h.compGroup hrl, List.filter_map, List.length_map]
+      have : (Earverif.Adm.compGroup a r).filter ((fun x => (compAllSelected a' (sel.map ρ)).contains x) ∘ ρ) =
+          (Earverif.Adm.compGroup a r).filter ((compAllSelected a sel).contains ·) := by
+        apply List.filter_congr
+        intro x hx
+        rw [Bool.eq_iff_iff]
+        simp only [Function.comp, List.contains_iff_mem]
+        exact h.mem_allSelected hok hsel (compGroup_lt hok hrl x hx)
+      rw [this]
+      exact h2 r hr
+  obtain ⟨ign', hs'⟩ := hex
+  refine ⟨ign', hs', fun o ho => ?_⟩
+  rw [mem_ignored_iff hs', mem_ignored_iff hs]
+  constructor
+  · rintro ⟨r', hr', hm, hn⟩
+    obtain ⟨r, hr, rfl⟩ := h.mem_compRoots.1 hr'
+    have hrl := compRoots_lt a hr
+    rw [h.compGroup hrl] at hm
+    exact ⟨r, hr, (h.mem_map_iff ho (compGroup_lt hok hrl)).1 hm,
+      fun hc => hn ((h.mem_allSelected hok hsel ho).2 hc)⟩
+  · rintro ⟨r, hr, hm, hn⟩
+    refine ⟨ρ r, h.mem_compRoots.2 ⟨r, hr, rfl⟩, ?_, fun hc => hn ((h.mem_allSelected hok hsel ho).1 hc)⟩
+    rw [h.compGroup (compRoots_lt a hr)]
+    exact List.mem_map.2 ⟨o, hm, rfl⟩
+
+end ObjRenamed
+
+
+/-! ### select_perm_objects -/
+
+theorem mapE_map {α β γ : Type} (f : β → Except Err γ) (g : α → β) :
+    ∀ l : List α, mapE f (l.map g) = mapE (fun x => f (g x)) l
+  | [] => rfl
+  | x :: xs => by simp only [List.map_cons, mapE, mapE_map f g xs]
+
+theorem flatMapE_map {α β γ : Type} (f : β → Except Err (List γ)) (g : α → β) (l : List α) :
+    flatMapE f (l.map g) = flatMapE (fun x => f (g x)) l := by
+  unfold flatMapE; rw [mapE_map]
+
+/-- the object paths of the selected states are non-empty and stay inside the object list. -/
+theorem specStates_path_lt {a : Adm} (hok : ObjRefsOK a) {prog : Option Nat} {ign : List Nat} {st : State}
+    (h : st ∈ specStates a prog ign) {p : List Nat} (hp : st.objPath = some p) :
+    p ≠ [] ∧ ∀ o ∈ p, o < a.objects.length := by
+  have key : ∀ r, r < a.objects.length → ∀ q, q ∈ specPaths a ign r →
+      q ≠ [] ∧ ∀ o ∈ q, o < a.objects.length := by
+    intro r hr q hq
+    simp only [specPaths, List.mem_filter] at hq
+    have hc := chain_of_mem_pathsFrom _ _ _ hq.1
+    exact ⟨hc.ne_nil, hc.all_lt (fun i _ => hok.subs i) hr⟩
+  unfold specStates at h
+  split at h
+  · simp only [List.mem_singleton] at h; subst h; cases hp
+  · cases prog with
+    | none =>
+      simp only [List.mem_flatMap, List.mem_map] at h
+      obtain ⟨r, hr, q, hq, rfl⟩ := h
+      have hq' : q = p := by simpa using hp
+      rw [← hq']
+      have hr : r < a.objects.length := by
+        simp only [rootObjects, List.mem_filter, List.mem_range] at hr; exact hr.1
+      exact key r hr q hq
+    | some pr =>
+      simp only [List.mem_flatMap, List.mem_map] at h
+      obtain ⟨c, _, r, hr, q, hq, rfl⟩ := h
+      have hq' : q = p := by simpa using hp
+      rw [← hq']
+      exact key r (hok.cont c r hr) q hq
+
+theorem renItem_of_none {ρ : Nat → Nat} {it : Item} (h : it.objPath = none) : renItem ρ it = it := by
+  cases it; simp only at h; subst h; rfl
+
+theorem ObjRenamed.itemsOfState {ρ : Nat → Nat} {a a' : Adm} (h : ObjRenamed ρ a a') (hok : ObjRefsOK a)
+    {prog : Option Nat} {ign : List Nat} {st : State} (hst : st ∈ Earverif.Adm.specStates a prog ign) :
+    Earverif.Adm.itemsOfState a' (renState ρ st) = (Earverif.Adm.itemsOfState a st).map (List.map (renItem ρ)) := by
+  cases hp : st.objPath with
+  | none =>
+    -- CHNA-only state: there are no objects at all
+    have hno : a.programmes = [] ∧ a.objects = [] := by
+      unfold Earverif.Adm.specStates at hst
+      split at hst
+      · assumption
+      · exfalso
+        cases prog with
+        | none =>
+          simp only [List.mem_flatMap, List.mem_map] at hst
+          obtain ⟨_, _, _, _, rfl⟩ := hst; cases hp
+        | some pr =>
+          simp only [List.mem_flatMap, List.mem_map] at hst
+          obtain ⟨_, _, _, _, _, _, rfl⟩ := hst; cases hp
+    have hst' : renState ρ st = st := by cases st; simp only at hp; subst hp; rfl
+    have hobj' : a'.objects = [] := by
+      rw [← List.length_eq_zero_iff, h.nobj, hno.2]; rfl
+    have hstrip : a'.strip = a.strip := by
+      unfold Adm.strip
+      rw [h.fmt, h.programmes, h.contents, hobj', hno.2, List.map_map]
+      rfl
+    rw [hst', ← itemsOfState_strip a', hstrip, itemsOfState_strip]
+    cases hi : Earverif.Adm.itemsOfState a st with
+    | error e => rfl
+    | ok its =>
+      simp only [Except.map]
+      congr 1
+      symm
+      rw [List.map_congr_left (g := id)]
+      · simp
+      · intro it hit
+        have := (itemsOfState_own hi it hit).1.2.2
+        exact renItem_of_none (this.trans hp)
+  | some p =>
+    obtain ⟨hne, hlt⟩ := specStates_path_lt hok hst hp
+    rw [← itemsOfState_strip a', ← itemsOfState_strip a]
+    refine itemsOfState_rename (b := a.strip) (b' := a'.strip) (ρ := ρ) (n := a.objects.length)
+      (show a'.strip.fmt = a.strip.fmt from h.fmt) ?_ ?_ ?_ st hp hne hlt
+    · intro q; rw [strip_prog, strip_prog, h.prog]
+    · intro c; rw [strip_cont, strip_cont, h.cont]
+    · intro i hi; rw [strip_obj, strip_obj, h.obj i hi]; rfl
+
+/-- **select_perm_objects**: re-numbering the audioObjects (declaring them in another order, all
+references to audioObjects remapped, the selected complementary objects renamed accordingly)
+gives a permutation of the same items, with the object paths renamed. -/
+theorem select_perm_objects {ρ : Nat → Nat} {a a' : Adm} (h : ObjRenamed ρ a a') (hwf : a.refsInRange = true)
+    (given : Option Nat) {sel : List Nat} (hsel : ∀ s ∈ sel, s < a.objects.length) {items : List Item}
+    (hs : selectRenderingItems a given sel = .ok items) :
+    ∃ items', selectRenderingItems a' given (sel.map ρ) = .ok items' ∧
+      items'.Perm (items.map (renItem ρ)) := by
+  have hok := objRefsOK_of_refsInRange hwf
+  unfold selectRenderingItems at hs ⊢
+  rw [h.fmt]
+  cases hw : wrappedPacks a.fmt with
+  | error e => simp [hw] at hs
+  | ok wps =>
+    simp only [hw] at hs ⊢
+    cases hc : selectComplementary a sel with
+    | error e => simp [hc] at hs
+    | ok ign =>
+      obtain ⟨ign', hc', hign⟩ := h.selectComplementary hok hsel hc
+      simp only [hc, hc', selectStates_eq_spec] at hs ⊢
+      have hprog : selectProgramme a' given = selectProgramme a given :=
+        selectProgramme_congr (by rw [h.programmes]) given
+      rw [hprog]
+      have hperm := h.specStates hok hign (selectProgramme a given)
+      have hmapped : flatMapE (Earverif.Adm.itemsOfState a') ((specStates a (selectProgramme a given) ign).map (renState ρ))
+          = .ok (items.map (renItem ρ)) := by
+        rw [flatMapE_map, flatMapE_map_comm (f := Earverif.Adm.itemsOfState a) (g := renItem ρ)
+          (fun st hst => h.itemsOfState hok hst), hs]
+        rfl
+      obtain ⟨zs, hzs, hp⟩ := flatMapE_perm _ hperm.symm hmapped
+      exact ⟨zs, hzs, hp.symm⟩
+
+
+/-- the document with its audioObjects re-declared in the order given by `ρ` (`ρinv` its inverse
+on the object indices) and every reference to an audioObject remapped. -/
+def renameObjects (ρ ρinv : Nat → Nat) (a : Adm) : Adm :=
+  { a with
+    contents := a.contents.map fun c => { c with objects := c.objects.map ρ },
+    objects := (List.range a.objects.length).map fun j => renObj ρ (a.obj (ρinv j)) }
+
+theorem renameObjects_renamed {ρ ρinv : Nat → Nat} {a : Adm}
+    (hperm : ((List.range a.objects.length).map ρ).Perm (List.range a.objects.length))
+    (hinv : ∀ i, i < a.objects.length → ρinv (ρ i) = i) : ObjRenamed ρ a (renameObjects ρ ρinv a) := by
+  refine ⟨rfl, rfl, rfl, by simp [renameObjects], fun i hi => ?_, hperm⟩
+  have hlt : ρ i < a.objects.length :=
+    List.mem_range.1 (hperm.mem_iff.1 (List.mem_map.2 ⟨i, List.mem_range.2 hi, rfl⟩))
+  unfold Adm.obj renameObjects
+  simp only [List.getD_eq_getElem?_getD, List.getElem?_map, List.getElem?_range hlt, Option.map_some,
+    Option.getD_some, hinv i hi]
+  simp [Adm.obj, List.getD_eq_getElem?_getD]
+
+/-- **select_perm_objects** in `rename` form. -/
+theorem select_perm_objects_rename {ρ ρinv : Nat → Nat} {a : Adm} (hwf : a.refsInRange = true)
+    (hperm : ((List.range a.objects.length).map ρ).Perm (List.range a.objects.length))
+    (hinv : ∀ i, i < a.objects.length → ρinv (ρ i) = i)
+    (given : Option Nat) {sel : List Nat} (hsel : ∀ s ∈ sel, s < a.objects.length) {items : List Item}
+    (hs : selectRenderingItems a given sel = .ok items) :
+    ∃ items', selectRenderingItems (renameObjects ρ ρinv a) given (sel.map ρ) = .ok items' ∧
+      items'.Perm (items.map (renItem ρ)) :=
+  select_perm_objects (renameObjects_renamed hperm hinv) hwf given hsel hs
+
+/-! ## re-numbering the format part (audioPackFormats, audioChannelFormats, audioTrackUIDs) -/
+
+/-- renaming maps for audioPackFormat, audioChannelFormat and audioTrackUID indices. -/
+structure FmtMaps where
+  σP : Nat → Nat
+  σC : Nat → Nat
+  σU : Nat → Nat
+
+def renPack (m : FmtMaps) (p : Pack) : Pack :=
+  { p with channels := p.channels.map m.σC, subPacks := p.subPacks.map m.σP,
+           inputPack := p.inputPack.map m.σP, outputPack := p.outputPack.map m.σP,
+           encodePacks := p.encodePacks.map m.σP }
+
+def renChan (m : FmtMaps) (c : Channel) : Channel :=
+  { c with matrix := { c.matrix with outputChannel := c.matrix.outputChannel.map m.σC,
+                                     coeffs := c.matrix.coeffs.map fun k => { k with input := m.σC k.input } } }
+
+/-- references inside the format part are in range. -/
+structure FmtRefsOK (f : Formats) : Prop where
+  subs : ∀ p, ∀ x ∈ (f.pack p).subPacks, x < f.packs.length
+  chans : ∀ p, ∀ x ∈ (f.pack p).channels, x < f.channels.length
+  inp : ∀ p q, (f.pack p).inputPack = some q → q < f.packs.length
+  outp : ∀ p q, (f.pack p).outputPack = some q → q < f.packs.length
+  enc : ∀ p, ∀ x ∈ (f.pack p).encodePacks, x < f.packs.length
+  mout : ∀ c q, (f.chan c).matrix.outputChannel = some q → q < f.channels.length
+  coeff : ∀ c, ∀ k ∈ (f.chan c).matrix.coeffs, k.input < f.channels.length
+
+/-- `a'` is `a` with the audioPackFormats, audioChannelFormats and audioTrackUIDs (and, through
+`trackChannel`, the stream/track formats) declared in another order, all references remapped. -/
+structure FmtRenamed (m : FmtMaps) (a a' : Adm) : Prop where
+  programmes : a'.programmes = a.programmes
+  contents : a'.contents = a.contents
+  objects : a'.objects = a.objects.map fun o =>
+    { o with packs := o.packs.map m.σP, tracks := o.tracks.map (Option.map m.σU) }
+  npacks : a'.fmt.packs.length = a.fmt.packs.length
+  nchans : a'.fmt.channels.length = a.fmt.channels.length
+  nuids : a'.fmt.trackUIDs.length = a.fmt.trackUIDs.length
+  pack : ∀ p, p < a.fmt.packs.length → a'.fmt.pack (m.σP p) = renPack m (a.fmt.pack p)
+  chan : ∀ c, c < a.fmt.channels.length → a'.fmt.chan (m.σC c) = renChan m (a.fmt.chan c)
+  uidIndex : ∀ u, u < a.fmt.trackUIDs.length → (a'.fmt.uid (m.σU u)).trackIndex = (a.fmt.uid u).trackIndex
+  uidPack : ∀ u, u < a.fmt.trackUIDs.length → (a'.fmt.uid (m.σU u)).pack = m.σP (a.fmt.uid u).pack
+  uidChan : ∀ u, u < a.fmt.trackUIDs.length → trackChannel a'.fmt (m.σU u) = m.σC (trackChannel a.fmt u)
+  permP : ((List.range a.fmt.packs.length).map m.σP).Perm (List.range a.fmt.packs.length)
+  permC : ((List.range a.fmt.channels.length).map m.σC).Perm (List.range a.fmt.channels.length)
+
+/-- facts about a map that permutes `range n`. -/
+theorem perm_lt {σ : Nat → Nat} {n : Nat} (h : ((List.range n).map σ).Perm (List.range n)) {i : Nat}
+    (hi : i < n) : σ i < n :=
+  List.mem_range.1 (h.mem_iff.1 (List.mem_map.2 ⟨i, List.mem_range.2 hi, rfl⟩))
+
+theorem perm_inj {σ : Nat → Nat} {n : Nat} (h : ((List.range n).map σ).Perm (List.range n)) {i j : Nat}
+    (hi : i < n) (hj : j < n) (hij : σ i = σ j) : i = j :=
+  eq_of_nodup_map (h.nodup_iff.2 List.nodup_range) (List.mem_range.2 hi) (List.mem_range.2 hj) hij
+
+theorem perm_mem_map {σ : Nat → Nat} {n : Nat} (h : ((List.range n).map σ).Perm (List.range n)) {x : Nat}
+    {l : List Nat} (hx : x < n) (hl : ∀ y ∈ l, y < n) : σ x ∈ l.map σ ↔ x ∈ l := by
+  constructor
+  · intro hm
+    obtain ⟨y, hy, hxy⟩ := List.mem_map.1 hm
+    rw [← perm_inj h (hl y hy) hx hxy]; exact hy
+  · exact fun hm => List.mem_map.2 ⟨x, hm, rfl⟩
+
+namespace FmtRenamed
+variable {m : FmtMaps} {a a' : Adm}
+
+theorem packSubs (h : FmtRenamed m a a') {p : Nat} (hp : p < a.fmt.packs.length) :
+    a'.fmt.packSubs (m.σP p) = (a.fmt.packSubs p).map m.σP := by
+  unfold Formats.packSubs; rw [h.pack p hp]; rfl
+
+theorem packPaths (h : FmtRenamed m a a') (hok : FmtRefsOK a.fmt) {p : Nat} (hp : p < a.fmt.packs.length) :
+    packPathsFrom a'.fmt (m.σP p) = (packPathsFrom a.fmt p).map (List.map m.σP) := by
+  unfold packPathsFrom
+  rw [h.npacks]
+  exact pathsFrom_rename (fun i hi => h.packSubs hi) (fun i _ => hok.subs i) _ p hp
+
+theorem packPaths_lt (hok : FmtRefsOK a.fmt) {p : Nat} (hp : p < a.fmt.packs.length) {path : List Nat}
+    (hpath : path ∈ packPathsFrom a.fmt p) : path ≠ [] ∧ ∀ q ∈ path, q < a.fmt.packs.length := by
+  have hc := chain_of_mem_pathsFrom _ _ _ hpath
+  exact ⟨hc.ne_nil, hc.all_lt (fun i _ => hok.subs i) hp⟩
+
+theorem slots (h : FmtRenamed m a a') (hok : FmtRefsOK a.fmt) {p : Nat} (hp : p < a.fmt.packs.length) :
+    slots a'.fmt (m.σP p) = (Earverif.Adm.slots a.fmt p).map fun s => (s.1.map m.σP, m.σC s.2) := by
+  unfold Earverif.Adm.slots
+  rw [h.packPaths hok hp, List.flatMap_map, List.map_flatMap]
+  apply flatMap_congr'
+  intro path hpath
+  obtain ⟨hne, hlt⟩ := packPaths_lt hok hp hpath
+  obtain ⟨hl1, hl2⟩ := getLastD_map_ne_nil (ρ := m.σP) hne
+  rw [hl1, h.pack _ (hlt _ hl2)]
+  simp [renPack, List.map_map]
+
+
+end FmtRenamed
+
+def renCh (m : FmtMaps) (c : PackAlloc.Channel) : PackAlloc.Channel := ⟨m.σC c.cf, c.pfs.map m.σP⟩
+
+/-- the identity of a wrapped pack (`3 * root + variant`) under renaming of the root. -/
+def renWid (m : FmtMaps) (i : Nat) : Nat := 3 * m.σP (i / 3) + i % 3
+
+def renW (m : FmtMaps) (w : WPack) : WPack :=
+  ⟨renWid m w.id, w.kind, m.σP w.root, w.channels.map (renCh m)⟩
+
+/-- one step of `get_wrapped_packs`. -/
+def wrapOne (f : Formats) (p : Nat) : Except Err (List WPack) :=
+  if (f.pack p).type ≠ 2 then .ok [wrapRegular f p] else wrapMatrix f p
+
+theorem wrappedPacks_eq (f : Formats) : wrappedPacks f = flatMapE (wrapOne f) (List.range f.packs.length) := rfl
+
+namespace FmtRenamed
+variable {m : FmtMaps} {a a' : Adm}
+
+theorem wrapOne (h : FmtRenamed m a a') (hok : FmtRefsOK a.fmt) {p : Nat} (hp : p < a.fmt.packs.length) :
+    wrapOne a'.fmt (m.σP p) = (Earverif.Adm.wrapOne a.fmt p).map (List.map (renW m)) := by
+  have hid : ∀ v, v < 3 → renWid m (3 * p + v) = 3 * m.σP p + v := by
+    intro v hv
+    unfold renWid
+    have h1 : (3 * p + v) / 3 = p := by omega
+    have h2 : (3 * p + v) % 3 = v := by omega
+    rw [h1, h2]
+  have hid0 : renWid m (3 * p) = 3 * m.σP p := by simpa using hid 0 (by omega)
+  have hflat : ∀ q fixed, q < a.fmt.packs.length →
+      (Earverif.Adm.slots a'.fmt (m.σP q)).map (fun s => (⟨s.2, [m.σP fixed]⟩ : PackAlloc.Channel)) =
+        ((Earverif.Adm.slots a.fmt q).map fun s => (⟨s.2, [fixed]⟩ : PackAlloc.Channel)).map (renCh m) := by
+    intro q fixed hq
+    rw [h.slots hok hq, List.map_map, List.map_map]
+    rfl
+  have hreg : (Earverif.Adm.slots a'.fmt (m.σP p)).map (fun s => (⟨s.2, s.1⟩ : PackAlloc.Channel)) =
+      ((Earverif.Adm.slots a.fmt p).map fun s => (⟨s.2, s.1⟩ : PackAlloc.Channel)).map (renCh m) := by
+    rw [h.slots hok hp, List.map_map, List.map_map]
+    rfl
+  unfold Earverif.Adm.wrapOne wrapMatrix
+  simp only [h.pack p hp]
+  have hty : (renPack m (a.fmt.pack p)).type = (a.fmt.pack p).type := rfl
+  rw [hty]
+  split
+  · simp only [Except.map, List.map_cons, List.map_nil, wrapRegular, renW, hid0, hreg]
+  · simp only [renPack]
+    cases hi : (a.fmt.pack p).inputPack with
+    | some i =>
+      have hil := hok.inp p i hi
+      cases ho : (a.fmt.pack p).outputPack with
+      | some o =>
+        simp only [Option.map_some, Except.map, List.map_cons, List.map_nil, renW, hid0, hid 1 (by omega),
+          hreg, hflat i p hil]
+      | none => simp [Except.map]
+    | none =>
+      cases ho : (a.fmt.pack p).outputPack with
+      | none => simp [Except.map]
+      | some o =>
+        simp only [Option.map_none, Option.map_some]
+        match he : (a.fmt.pack p).encodePacks with
+        | [] => simp [Except.map]
+        | e :: e2 :: rest => simp [Except.map]
+        | [e] =>
+          have hel : e < a.fmt.packs.length := hok.enc p e (by rw [he]; simp)
+          simp only [List.map_cons, List.map_nil, h.pack e hel, renPack]
+          cases hei : (a.fmt.pack e).inputPack with
+          | none => simp [Except.map]
+          | some ei =>
+            have heil := hok.inp e ei hei
+            simp only [Option.map_some, Except.map, List.map_cons, List.map_nil, renW, hid0, hid 1 (by omega),
+              hid 2 (by omega), hreg, hflat e p hel, hflat ei e heil]
+
+
+/-- the `AllocationPack`s of the re-numbered document are those of the original, renamed, in
+another order. -/
+theorem wrappedPacks (h : FmtRenamed m a a') (hok : FmtRefsOK a.fmt) {wps : List WPack}
+    (hw : wrappedPacks a.fmt = .ok wps) :
+    ∃ wps', Earverif.Adm.wrappedPacks a'.fmt = .ok wps' ∧ wps'.Perm (wps.map (renW m)) := by
+  rw [wrappedPacks_eq] at hw ⊢
+  rw [h.npacks]
+  have h1 : flatMapE (Earverif.Adm.wrapOne a'.fmt) ((List.range a.fmt.packs.length).map m.σP) =
+      .ok (wps.map (renW m)) := by
+    rw [flatMapE_map, flatMapE_map_comm (f := Earverif.Adm.wrapOne a.fmt) (g := renW m)
+      (fun p hp => h.wrapOne hok (List.mem_range.1 hp)), hw]
+    rfl
+  obtain ⟨zs, hzs, hp⟩ := flatMapE_perm _ h.permP h1
+  exact ⟨zs, hzs, hp.symm⟩
+
+end FmtRenamed
+
+/-! ### the allocation problem under re-numbering: valid allocations correspond -/
+
+open PackAlloc in
+def renAPack (m : FmtMaps) (p : PackAlloc.Pack) : PackAlloc.Pack :=
+  ⟨renWid m p.id, m.σP p.root, p.channels.map (renCh m)⟩
+
+def renTrack (m : FmtMaps) (t : PackAlloc.Track) : PackAlloc.Track := ⟨t.id, m.σC t.cf, m.σP t.pf⟩
+
+def renSlot (m : FmtMaps) (s : PackAlloc.Slot) : PackAlloc.Slot := s.map (Option.map (renTrack m))
+
+def renAllocated (m : FmtMaps) (al : PackAlloc.Allocated) : PackAlloc.Allocated :=
+  ⟨renAPack m al.pack, al.allocation.map fun cs => (renCh m cs.1, renSlot m cs.2)⟩
+
+theorem slots_renSol (m : FmtMaps) (sol : PackAlloc.Sol) :
+    PackAlloc.slots (sol.map (renAllocated m)) =
+      (PackAlloc.slots sol).map fun cs => (renCh m cs.1, renSlot m cs.2) := by
+  simp [PackAlloc.slots, List.flatMap_map, List.map_flatMap, renAllocated]
+
+theorem filled_renSol (m : FmtMaps) (sol : PackAlloc.Sol) :
+    PackAlloc.filled (sol.map (renAllocated m)) = (PackAlloc.filled sol).map (Option.map (renTrack m)) := by
+  unfold PackAlloc.filled
+  rw [slots_renSol]
+  generalize PackAlloc.slots sol = l
+  induction l with
+  | nil => rfl
+  | cons cs rest ih =>
+    obtain ⟨c, s⟩ := cs
+    simp only [List.map_cons, List.filterMap_cons]
+    cases s with
+    | none => exact ih
+    | some t => exact congrArg (Option.map (renTrack m) t :: ·) ih
+
+theorem realTracks_renSol (m : FmtMaps) (sol : PackAlloc.Sol) :
+    PackAlloc.realTracks (sol.map (renAllocated m)) = (PackAlloc.realTracks sol).map (renTrack m) := by
+  unfold PackAlloc.realTracks
+  rw [filled_renSol]
+  generalize PackAlloc.filled sol = l
+  induction l with
+  | nil => rfl
+  | cons t rest ih => cases t <;> simp [ih]
+
+theorem numSilentIn_renSol (m : FmtMaps) (sol : PackAlloc.Sol) :
+    PackAlloc.numSilentIn (sol.map (renAllocated m)) = PackAlloc.numSilentIn sol := by
+  unfold PackAlloc.numSilentIn
+  rw [filled_renSol]
+  generalize PackAlloc.filled sol = l
+  induction l with
+  | nil => rfl
+  | cons t rest ih => cases t <;> simp [ih]
+
+/-- a valid allocation of a problem, renamed, is a valid allocation of the renamed problem (whatever
+the order of its `packs`). -/
+theorem valid_rename (m : FmtMaps) {prob prob' : PackAlloc.Problem}
+    (hp : prob'.packs.Perm (prob.packs.map (renAPack m)))
+    (ht : prob'.tracks = prob.tracks.map (renTrack m))
+    (hr : prob'.packRefs = prob.packRefs.map (List.map m.σP))
+    (hn : prob'.numSilent = prob.numSilent) {sol : PackAlloc.Sol} (hv : PackAlloc.Valid prob sol) :
+    PackAlloc.Valid prob' (sol.map (renAllocated m)) := by
+  refine ⟨?_, ?_, ?_, ?_, ?_, ?_, ?_⟩
+  · intro al hal
+    obtain ⟨al0, hal0, rfl⟩ := List.mem_map.1 hal
+    exact hp.mem_iff.2 (List.mem_map.2 ⟨al0.pack, hv.packs_mem al0 hal0, rfl⟩)
+  · intro al hal
+    obtain ⟨al0, hal0, rfl⟩ := List.mem_map.1 hal
+    simp only [renAllocated, renAPack, List.map_map]
+    rw [← hv.channels al0 hal0, List.map_map]
+    rfl
+  · intro cs hcs
+    rw [slots_renSol] at hcs
+    obtain ⟨cs0, hcs0, rfl⟩ := List.mem_map.1 hcs
+    have := hv.complete cs0 hcs0
+    cases h : cs0.2 with
+    | none => exact absurd h this
+    | some t => simp [renSlot]
+  · rw [realTracks_renSol, ht]
+    exact hv.tracks.map _
+  · rw [numSilentIn_renSol, hn]; exact hv.silent
+  · intro cs hcs t hts
+    rw [slots_renSol] at hcs
+    obtain ⟨cs0, hcs0, rfl⟩ := List.mem_map.1 hcs
+    simp only [renSlot] at hts
+    cases h0 : cs0.2 with
+    | none => simp [h0] at hts
+    | some o =>
+      cases o with
+      | none => simp [h0] at hts
+      | some t0 =>
+        simp only [h0, Option.map_some, Option.some.injEq] at hts
+        subst hts
+        obtain ⟨h1, h2⟩ := hv.compat cs0 hcs0 t0 h0
+        exact ⟨by simp [renTrack, renCh, h1], List.mem_map.2 ⟨t0.pf, h2, rfl⟩⟩
+  · rw [hr]
+    have := hv.refs
+    cases hpr : prob.packRefs with
+    | none => trivial
+    | some r =>
+      rw [hpr] at this
+      simp only [Option.map_some, PackAlloc.RefsOK, List.map_map] at this ⊢
+      have := this.map m.σP
+      simpa [List.map_map, renAllocated, renAPack, Function.comp_def] using this
+
+
+/-! ### output packs and track specs under re-numbering -/
+
+/-- an allocated output pack with pack and channel indices renamed (track specs do not mention
+indices of the document). -/
+def renAP (m : FmtMaps) (ap : AllocPack) : AllocPack :=
+  ⟨m.σP ap.pack, ap.alloc.map fun cs => (m.σC cs.1, cs.2)⟩
+
+theorem mapE_comm2 {α α' β β' : Type} {f : α → Except Err β} {f' : α' → Except Err β'} {g : α → α'} {r : β → β'} :
+    ∀ {l : List α}, (∀ x ∈ l, f' (g x) = (f x).map r) → mapE f' (l.map g) = (mapE f l).map (List.map r)
+  | [], _ => rfl
+  | x :: xs, h => by
+    have ih := mapE_comm2 (f := f) (f' := f') (g := g) (r := r) (l := xs) fun y hy => h y (List.mem_cons_of_mem _ hy)
+    simp only [List.map_cons, mapE, h x (List.mem_cons_self ..), ih]
+    cases f x <;> simp only [Except.map]
+    cases mapE f xs <;> simp
+
+theorem mapE_congr {α β : Type} {f g : α → Except Err β} : ∀ {l : List α}, (∀ x ∈ l, f x = g x) → mapE f l = mapE g l
+  | [], _ => rfl
+  | x :: xs, h => by
+    simp only [mapE, h x (List.mem_cons_self ..),
+      mapE_congr (l := xs) fun y hy => h y (List.mem_cons_of_mem _ hy)]
+
+theorem find?_congr' {α : Type} {p q : α → Bool} : ∀ {l : List α}, (∀ x ∈ l, p x = q x) → l.find? p = l.find? q
+  | [], _ => rfl
+  | x :: xs, h => by
+    simp only [List.find?_cons, h x (List.mem_cons_self ..)]
+    rw [find?_congr' (l := xs) fun y hy => h y (List.mem_cons_of_mem _ hy)]
+
+namespace FmtRenamed
+variable {m : FmtMaps} {a a' : Adm}
+
+theorem chanType (h : FmtRenamed m a a') {c : Nat} (hc : c < a.fmt.channels.length) :
+    (a'.fmt.chan (m.σC c)).type = (a.fmt.chan c).type := by rw [h.chan c hc]; rfl
+
+theorem slotSpec (h : FmtRenamed m a a') {uids : List Nat} (hu : ∀ u ∈ uids, u < a.fmt.trackUIDs.length)
+    (s : PackAlloc.Slot) : slotSpec a'.fmt (uids.map m.σU) (renSlot m s) = Earverif.Adm.slotSpec a.fmt uids s := by
+  cases s with
+  | none => rfl
+  | some o =>
+    cases o with
+    | none => rfl
+    | some t =>
+      simp only [renSlot, Option.map_some, Earverif.Adm.slotSpec, renTrack, List.getElem?_map]
+      cases hg : uids[t.id]? with
+      | none => rfl
+      | some u =>
+        have hmem : u ∈ uids := List.mem_of_getElem? hg
+        simp only [Option.map_some, h.uidIndex u (hu u hmem)]
+
+/-- `get_track_spec` inside `output_channel_allocation` only follows channel references. -/
+theorem matrixSpec (h : FmtRenamed m a a') (hok : FmtRefsOK a.fmt) {inputs : List (Nat × TSpec)}
+    (hin : ∀ cs ∈ inputs, cs.1 < a.fmt.channels.length) :
+    ∀ fuel ch, ch < a.fmt.channels.length →
+      matrixSpec a'.fmt (inputs.map fun cs => (m.σC cs.1, cs.2)) fuel (m.σC ch) =
+        Earverif.Adm.matrixSpec a.fmt inputs fuel ch
+  | 0, _, _ => rfl
+  | fuel + 1, ch, hch => by
+    have hfind : (inputs.map fun cs => (m.σC cs.1, cs.2)).find? (·.1 == m.σC ch) =
+        (inputs.find? (·.1 == ch)).map fun cs => (m.σC cs.1, cs.2) := by
+      rw [List.find?_map]
+      congr 1
+      apply find?_congr'
+      intro cs hcs
+      simp only [Function.comp]
+      rw [Bool.eq_iff_iff]
+      simp only [beq_iff_eq]
+      exact ⟨fun e => perm_inj h.permC (hin cs hcs) hch e, fun e => by rw [e]⟩
+    unfold Earverif.Adm.matrixSpec
+    rw [hfind]
+    cases inputs.find? (·.1 == ch) with
+    | some s => rfl
+    | none =>
+      simp only [Option.map_none, h.chanType hch]
+      split
+      · rfl
+      · rw [h.chan ch hch]
+        simp only [renChan]
+        rw [mapE_map]
+        congr 1
+        apply mapE_congr
+        intro k hk
+        simp only [matrixSpec h hok hin fuel k.input (hok.coeff ch k hk)]
+
+
+theorem slotEntry (h : FmtRenamed m a a') {uids : List Nat} (hu : ∀ u ∈ uids, u < a.fmt.trackUIDs.length)
+    (cs : PackAlloc.Channel × PackAlloc.Slot) :
+    slotEntry a'.fmt (uids.map m.σU) (renCh m cs.1, renSlot m cs.2) =
+      (Earverif.Adm.slotEntry a.fmt uids cs).map fun x => (m.σC x.1, x.2) := by
+  unfold Earverif.Adm.slotEntry
+  simp only [h.slotSpec hu cs.2, renCh]
+  cases Earverif.Adm.slotSpec a.fmt uids cs.2 <;> rfl
+
+theorem matrixEntry (h : FmtRenamed m a a') (hok : FmtRefsOK a.fmt) {inputs : List (Nat × TSpec)}
+    (hin : ∀ cs ∈ inputs, cs.1 < a.fmt.channels.length) {mc : Nat} (hmc : mc < a.fmt.channels.length) :
+    matrixEntry a'.fmt (inputs.map fun cs => (m.σC cs.1, cs.2)) (m.σC mc) =
+      (Earverif.Adm.matrixEntry a.fmt inputs mc).map fun x => (m.σC x.1, x.2) := by
+  unfold Earverif.Adm.matrixEntry
+  rw [h.chan mc hmc, h.nchans, h.matrixSpec hok hin _ mc hmc]
+  simp only [renChan]
+  cases (a.fmt.chan mc).matrix.outputChannel with
+  | none => rfl
+  | some oc =>
+    simp only [Option.map_some]
+    cases Earverif.Adm.matrixSpec a.fmt inputs (a.fmt.channels.length + 1) mc <;> rfl
+
+theorem outputOf (h : FmtRenamed m a a') (hok : FmtRefsOK a.fmt) {uids : List Nat}
+    (hu : ∀ u ∈ uids, u < a.fmt.trackUIDs.length) (al : PackAlloc.Allocated)
+    (hroot : al.pack.root < a.fmt.packs.length)
+    (hch : ∀ cs ∈ al.allocation, cs.1.cf < a.fmt.channels.length) :
+    outputOf a'.fmt (uids.map m.σU) (renAllocated m al) =
+      (Earverif.Adm.outputOf a.fmt uids al).map (renAP m) := by
+  unfold Earverif.Adm.outputOf
+  simp only [renAllocated, renAPack]
+  rw [mapE_comm2 (f := Earverif.Adm.slotEntry a.fmt uids) (r := fun x => (m.σC x.1, x.2))
+    (fun cs _ => h.slotEntry hu cs)]
+  cases hi : mapE (Earverif.Adm.slotEntry a.fmt uids) al.allocation with
+  | error e => rfl
+  | ok inputs =>
+    have hin : ∀ cs ∈ inputs, cs.1 < a.fmt.channels.length := by
+      intro cs hcs
+      obtain ⟨x, hx, hfx⟩ := mapE_mem hi hcs
+      unfold Earverif.Adm.slotEntry at hfx
+      cases hs : Earverif.Adm.slotSpec a.fmt uids x.2 with
+      | error e => simp [hs] at hfx
+      | ok sp =>
+        simp only [hs, Except.ok.injEq] at hfx
+        rw [← hfx]
+        exact hch x hx
+    simp only [Except.map, h.pack _ hroot]
+    have hty : (renPack m (a.fmt.pack al.pack.root)).type = (a.fmt.pack al.pack.root).type := rfl
+    rw [hty]
+    split
+    · rfl
+    · simp only [renPack]
+      cases ho : (a.fmt.pack al.pack.root).outputPack with
+      | none => rfl
+      | some out =>
+        simp only [Option.map_some]
+        rw [mapE_comm2 (f := Earverif.Adm.matrixEntry a.fmt inputs) (r := fun x => (m.σC x.1, x.2))
+          (fun mc hmc => h.matrixEntry hok hin (hok.chans _ mc hmc))]
+        cases mapE (Earverif.Adm.matrixEntry a.fmt inputs) (a.fmt.pack al.pack.root).channels <;> rfl
+
+
+end FmtRenamed
+
+/-! ### items of an allocated pack under re-numbering of the format part -/
+
+/-- an item with its channel and pack indices renamed. -/
+def renItemF (m : FmtMaps) (it : Item) : Item :=
+  { it with channels := it.channels.map m.σC, packPaths := it.packPaths.map (List.map m.σP) }
+
+theorem checkPairs_map {α α' β : Type} [DecidableEq β] {f : α → Except Err β} {f' : α' → Except Err β} {g : α → α'} :
+    ∀ {l : List α}, (∀ x ∈ l, f' (g x) = f x) → checkPairs f' (l.map g) = checkPairs f l
+  | [], _ => rfl
+  | [_], _ => rfl
+  | x :: y :: rest, h => by
+    have ih := checkPairs_map (f := f) (f' := f') (g := g) (l := y :: rest)
+      fun z hz => h z (List.mem_cons_of_mem _ hz)
+    simp only [List.map_cons] at ih ⊢
+    simp only [checkPairs, h x (List.mem_cons_self ..), h y (List.mem_cons_of_mem _ (List.mem_cons_self ..)), ih]
+
+theorem getSingleParam_map {α α' β : Type} [DecidableEq β] {f : α → Except Err β} {f' : α' → Except Err β}
+    {g : α → α'} {l : List α} (h : ∀ x ∈ l, f' (g x) = f x) :
+    getSingleParam (l.map g) f' = getSingleParam l f := by
+  unfold getSingleParam
+  rw [checkPairs_map h]
+  cases l with
+  | nil => rfl
+  | cons x xs => simp only [List.map_cons, h x (List.mem_cons_self ..)]
+
+namespace FmtRenamed
+variable {m : FmtMaps} {a a' : Adm}
+
+theorem obj (h : FmtRenamed m a a') (i : Nat) :
+    a'.obj i = { a.obj i with packs := (a.obj i).packs.map m.σP, tracks := (a.obj i).tracks.map (Option.map m.σU) } := by
+  unfold Adm.obj
+  rw [h.objects]
+  exact getD_map_default (fun o : Obj => { o with packs := o.packs.map m.σP, tracks := o.tracks.map (Option.map m.σU) })
+    a.objects i default
+
+theorem prog (h : FmtRenamed m a a') (p : Nat) : a'.prog p = a.prog p := by unfold Adm.prog; rw [h.programmes]
+theorem cont (h : FmtRenamed m a a') (c : Nat) : a'.cont c = a.cont c := by unfold Adm.cont; rw [h.contents]
+
+theorem getAvs (h : FmtRenamed m a a') (st : State) : getAvs a' st = Earverif.Adm.getAvs a st := by
+  unfold Earverif.Adm.getAvs State.leaf
+  cases st.objPath <;> simp [h.obj, h.prog, h.cont]
+
+theorem extraOf (h : FmtRenamed m a a') (st : State) (ch : Option Nat)
+    (hch : ∀ c, ch = some c → c < a.fmt.channels.length) (ad : Option Rat) :
+    extraOf a' st (ch.map m.σC) ad = Earverif.Adm.extraOf a st ch ad := by
+  unfold Earverif.Adm.extraOf
+  rw [h.getAvs]
+  have hleaf : State.leaf a' st = (State.leaf a st).map fun o =>
+      { o with packs := o.packs.map m.σP, tracks := o.tracks.map (Option.map m.σU) } := by
+    unfold State.leaf; cases st.objPath <;> simp [h.obj]
+  rw [hleaf]
+  cases ch with
+  | none => cases State.leaf a st <;> cases st.programme <;> simp [h.prog]
+  | some c =>
+    have := h.chan c (hch c rfl)
+    cases State.leaf a st <;> cases st.programme <;> simp [h.prog, this, renChan]
+
+theorem getImportance (h : FmtRenamed m a a') (st : State) {pp : List Nat}
+    (hpp : ∀ q ∈ pp, q < a.fmt.packs.length) :
+    getImportance a' st (pp.map m.σP) = Earverif.Adm.getImportance a st pp := by
+  unfold Earverif.Adm.getImportance
+  have h1 : (pp.map m.σP).map (fun p => (a'.fmt.pack p).importance) = pp.map fun p => (a.fmt.pack p).importance := by
+    rw [List.map_map]
+    apply List.map_congr_left
+    intro q hq
+    simp only [Function.comp, h.pack q (hpp q hq)]
+    rfl
+  rw [h1]
+  cases st.objPath <;> simp [h.obj]
+
+theorem absDist (h : FmtRenamed m a a') {pp : List Nat} (hpp : ∀ q ∈ pp, q < a.fmt.packs.length) :
+    (pp.map m.σP).map (fun p => (a'.fmt.pack p).absDist) = pp.map fun p => (a.fmt.pack p).absDist := by
+  rw [List.map_map]
+  apply List.map_congr_left
+  intro q hq
+  simp only [Function.comp, h.pack q (hpp q hq)]
+  rfl
+
+theorem getExtraData (h : FmtRenamed m a a') (st : State) {ppc : List (List Nat × Nat)}
+    (hppc : ∀ pc ∈ ppc, ∀ q ∈ pc.1, q < a.fmt.packs.length) (ch : Option Nat)
+    (hch : ∀ c, ch = some c → c < a.fmt.channels.length) :
+    getExtraData a' st (ppc.map fun pc => (pc.1.map m.σP, m.σC pc.2)) (ch.map m.σC) =
+      Earverif.Adm.getExtraData a st ppc ch := by
+  unfold Earverif.Adm.getExtraData
+  rw [getSingleParam_map (f := fun pc => getPathParam (pc.1.map fun p => (a.fmt.pack p).absDist))
+    (fun pc hpc => by simp only [h.absDist (hppc pc hpc)])]
+  cases getSingleParam ppc fun pc => getPathParam (pc.1.map fun p => (a.fmt.pack p).absDist) with
+  | error e => rfl
+  | ok ad => simp only [h.extraOf st ch hch]
+
+
+theorem getPackFormatPath (h : FmtRenamed m a a') (hok : FmtRefsOK a.fmt) {p ch : Nat}
+    (hp : p < a.fmt.packs.length) (hch : ch < a.fmt.channels.length) :
+    getPackFormatPath a'.fmt (m.σP p) (m.σC ch) =
+      (Earverif.Adm.getPackFormatPath a.fmt p ch).map (List.map m.σP) := by
+  unfold Earverif.Adm.getPackFormatPath
+  rw [h.packPaths hok hp, List.filter_map]
+  have hf : (packPathsFrom a.fmt p).filter
+        ((fun path => (a'.fmt.pack (path.getLastD 0)).channels.contains (m.σC ch)) ∘ List.map m.σP) =
+      (packPathsFrom a.fmt p).filter fun path => (a.fmt.pack (path.getLastD 0)).channels.contains ch := by
+    apply List.filter_congr
+    intro path hpath
+    obtain ⟨hne, hlt⟩ := packPaths_lt hok hp hpath
+    obtain ⟨hl1, hl2⟩ := getLastD_map_ne_nil (ρ := m.σP) hne
+    simp only [Function.comp, hl1, h.pack _ (hlt _ hl2), renPack]
+    rw [Bool.eq_iff_iff]
+    simp only [List.contains_iff_mem]
+    exact perm_mem_map h.permC hch (hok.chans _)
+  rw [hf]
+  generalize (packPathsFrom a.fmt p).filter (fun path => (a.fmt.pack (path.getLastD 0)).channels.contains ch) = l
+  match l with
+  | [] => rfl
+  | [_] => rfl
+  | _ :: _ :: _ => rfl
+
+theorem getPackFormatPath_lt (hok : FmtRefsOK a.fmt) {p ch : Nat} (hp : p < a.fmt.packs.length)
+    {pp : List Nat} (hpp : Earverif.Adm.getPackFormatPath a.fmt p ch = .ok pp) :
+    ∀ q ∈ pp, q < a.fmt.packs.length := by
+  unfold Earverif.Adm.getPackFormatPath at hpp
+  split at hpp
+  · rename_i path hl
+    cases hpp
+    have : pp ∈ (packPathsFrom a.fmt p).filter fun path => (a.fmt.pack (path.getLastD 0)).channels.contains ch := by
+      rw [hl]; exact List.mem_singleton.2 rfl
+    exact (packPaths_lt hok hp (List.mem_filter.1 this).1).2
+  · cases hpp
+
+theorem singleItem (h : FmtRenamed m a a') (hok : FmtRefsOK a.fmt) (st : State) (ty : Nat) {p : Nat}
+    (hp : p < a.fmt.packs.length) {ct : Nat × TSpec} (hct : ct.1 < a.fmt.channels.length) :
+    singleItem a' st ty (m.σP p) (m.σC ct.1, ct.2) =
+      (Earverif.Adm.singleItem a st ty p ct).map (renItemF m) := by
+  unfold Earverif.Adm.singleItem
+  simp only [h.getPackFormatPath hok hp hct]
+  cases hpp : Earverif.Adm.getPackFormatPath a.fmt p ct.1 with
+  | error e => rfl
+  | ok pp =>
+    have hlt := getPackFormatPath_lt hok hp hpp
+    have hged := h.getExtraData st (ppc := [(pp, ct.1)])
+      (by intro pc hpc; simp only [List.mem_singleton] at hpc; subst hpc; exact hlt)
+      (some ct.1) (by intro c hc; cases hc; exact hct)
+    simp only [List.map_cons, List.map_nil, Option.map_some] at hged
+    simp only [Except.map, hged, h.getImportance st hlt]
+    cases Earverif.Adm.getExtraData a st [(pp, ct.1)] (some ct.1) with
+    | error e => rfl
+    | ok ex =>
+      simp only [renItemF, List.map_cons, List.map_nil, h.chan _ hct, renChan]
+
+
+theorem hoaBlock (h : FmtRenamed m a a') {c : Nat} (hc : c < a.fmt.channels.length) :
+    (a'.fmt.chan (m.σC c)).hoa = (a.fmt.chan c).hoa := by rw [h.chan c hc]; rfl
+
+theorem hoaPackParam (h : FmtRenamed m a a') {β : Type} [DecidableEq β] (ps : Pack → Option β)
+    (hps : ∀ p, ps (renPack m p) = ps p) (bs : HoaBlock → Option β) {pc : List Nat × Nat}
+    (hpc : ∀ q ∈ pc.1, q < a.fmt.packs.length) (hc : pc.2 < a.fmt.channels.length) :
+    hoaPackParam a'.fmt ps bs (pc.1.map m.σP, m.σC pc.2) = Earverif.Adm.hoaPackParam a.fmt ps bs pc := by
+  unfold Earverif.Adm.hoaPackParam
+  simp only [h.hoaBlock hc, List.map_map]
+  congr 2
+  apply List.map_congr_left
+  intro q hq
+  simp only [Function.comp, h.pack q (hpc q hq), hps]
+
+theorem hoaMetaOf (h : FmtRenamed m a a') {ppc : List (List Nat × Nat)}
+    (hppc : ∀ pc ∈ ppc, (∀ q ∈ pc.1, q < a.fmt.packs.length) ∧ pc.2 < a.fmt.channels.length) :
+    hoaMetaOf a'.fmt (ppc.map fun pc => (pc.1.map m.σP, m.σC pc.2)) = Earverif.Adm.hoaMetaOf a.fmt ppc := by
+  unfold Earverif.Adm.hoaMetaOf
+  dsimp only
+  have hblk : ∀ pc ∈ ppc, (a'.fmt.chan (m.σC pc.2)).hoa = (a.fmt.chan pc.2).hoa :=
+    fun pc hpc => h.hoaBlock (hppc pc hpc).2
+  let G : List Nat × Nat → List Nat × Nat := fun pc => (pc.1.map m.σP, m.σC pc.2)
+  have e1 : getSingleParam (ppc.map G) (fun pc => (.ok ((a'.fmt.chan pc.2).hoa).rtime : Except Err (Option Rat))) =
+      getSingleParam ppc (fun pc => (.ok ((a.fmt.chan pc.2).hoa).rtime : Except Err (Option Rat))) :=
+    getSingleParam_map (fun pc hpc => by simp only [G, hblk pc hpc])
+  have e2 : getSingleParam (ppc.map G) (fun pc => (.ok ((a'.fmt.chan pc.2).hoa).duration : Except Err (Option Rat))) =
+      getSingleParam ppc (fun pc => (.ok ((a.fmt.chan pc.2).hoa).duration : Except Err (Option Rat))) :=
+    getSingleParam_map (fun pc hpc => by simp only [G, hblk pc hpc])
+  have e3 : getSingleParam (ppc.map G) (hoaNorm a'.fmt) = getSingleParam ppc (hoaNorm a.fmt) :=
+    getSingleParam_map (fun pc hpc => by
+      simp only [G]; unfold hoaNorm; rw [h.hoaPackParam _ (fun _ => rfl) _ (hppc pc hpc).1 (hppc pc hpc).2])
+  have e4 : getSingleParam (ppc.map G) (hoaNfc a'.fmt) = getSingleParam ppc (hoaNfc a.fmt) :=
+    getSingleParam_map (fun pc hpc => by
+      simp only [G]; unfold hoaNfc; rw [h.hoaPackParam _ (fun _ => rfl) _ (hppc pc hpc).1 (hppc pc hpc).2])
+  have e5 : getSingleParam (ppc.map G) (hoaSref a'.fmt) = getSingleParam ppc (hoaSref a.fmt) :=
+    getSingleParam_map (fun pc hpc => by
+      simp only [G]; unfold hoaSref; rw [h.hoaPackParam _ (fun _ => rfl) _ (hppc pc hpc).1 (hppc pc hpc).2])
+  have hm : ∀ {γ : Type} (g : HoaBlock → γ), (ppc.map G).map (fun pc => g (a'.fmt.chan pc.2).hoa)
+      = ppc.map fun pc => g (a.fmt.chan pc.2).hoa := by
+    intro γ g; rw [List.map_map]; apply List.map_congr_left; intro pc hpc; simp only [Function.comp, G, hblk pc hpc]
+  rw [e1, e2, e3, e4, e5, hm (·.order), hm (·.degree), hm (·.importance), hm (·.gain)]
+
+
+theorem hoaPathOf (h : FmtRenamed m a a') (hok : FmtRefsOK a.fmt) {p : Nat} (hp : p < a.fmt.packs.length)
+    {ct : Nat × TSpec} (hct : ct.1 < a.fmt.channels.length) :
+    hoaPathOf a'.fmt (m.σP p) (m.σC ct.1, ct.2) =
+      (Earverif.Adm.hoaPathOf a.fmt p ct).map fun pc => (pc.1.map m.σP, m.σC pc.2) := by
+  unfold Earverif.Adm.hoaPathOf
+  simp only [h.getPackFormatPath hok hp hct]
+  cases Earverif.Adm.getPackFormatPath a.fmt p ct.1 <;> rfl
+
+theorem hoaItem (h : FmtRenamed m a a') (hok : FmtRefsOK a.fmt) (st : State) {ap : AllocPack}
+    (hp : ap.pack < a.fmt.packs.length) (hal : ∀ ct ∈ ap.alloc, ct.1 < a.fmt.channels.length) :
+    hoaItem a' st (renAP m ap) = (Earverif.Adm.hoaItem a st ap).map (renItemF m) := by
+  unfold Earverif.Adm.hoaItem
+  simp only [renAP]
+  rw [mapE_comm2 (f := Earverif.Adm.hoaPathOf a.fmt ap.pack) (r := fun pc => (pc.1.map m.σP, m.σC pc.2))
+    (fun ct hct => h.hoaPathOf hok hp (hal ct hct))]
+  cases hm : mapE (Earverif.Adm.hoaPathOf a.fmt ap.pack) ap.alloc with
+  | error e => rfl
+  | ok ppc =>
+    have hppc : ∀ pc ∈ ppc, (∀ q ∈ pc.1, q < a.fmt.packs.length) ∧ pc.2 < a.fmt.channels.length := by
+      intro pc hpc
+      obtain ⟨ct, hct, hf⟩ := mapE_mem hm hpc
+      unfold Earverif.Adm.hoaPathOf at hf
+      cases hg : Earverif.Adm.getPackFormatPath a.fmt ap.pack ct.1 with
+      | error e => simp [hg] at hf
+      | ok pp =>
+        simp only [hg, Except.ok.injEq] at hf
+        subst hf
+        exact ⟨getPackFormatPath_lt hok hp hg, hal ct hct⟩
+    have hged := h.getExtraData st (ppc := ppc) (fun pc hpc => (hppc pc hpc).1) none (by intro c hc; cases hc)
+    simp only [Option.map_none] at hged
+    simp only [Except.map, h.hoaMetaOf hppc, hged]
+    cases Earverif.Adm.hoaMetaOf a.fmt ppc with
+    | error e => rfl
+    | ok hmeta =>
+      cases Earverif.Adm.getExtraData a st ppc none with
+      | error e => rfl
+      | ok ex =>
+        simp only [renItemF, List.map_map, Except.ok.injEq]
+        have himp : ppc.map ((fun pc => Earverif.Adm.getImportance a' st pc.1) ∘ fun pc => (pc.1.map m.σP, m.σC pc.2)) =
+            ppc.map fun pc => Earverif.Adm.getImportance a st pc.1 := by
+          apply List.map_congr_left
+          intro pc hpc
+          simp only [Function.comp, h.getImportance st (hppc pc hpc).1]
+        rw [himp]
+        rfl
+
+theorem itemsOfPack (h : FmtRenamed m a a') (hok : FmtRefsOK a.fmt) (st : State) {ap : AllocPack}
+    (hp : ap.pack < a.fmt.packs.length) (hal : ∀ ct ∈ ap.alloc, ct.1 < a.fmt.channels.length) :
+    itemsOfPack a' st (renAP m ap) = (Earverif.Adm.itemsOfPack a st ap).map (List.map (renItemF m)) := by
+  unfold Earverif.Adm.itemsOfPack
+  have hty : (a'.fmt.pack (renAP m ap).pack).type = (a.fmt.pack ap.pack).type := by
+    simp only [renAP, h.pack _ hp]; rfl
+  simp only [hty, h.hoaItem hok st hp hal]
+  split
+  · simp only [renAP]
+    exact mapE_comm2 (f := Earverif.Adm.singleItem a st _ ap.pack) (r := renItemF m)
+      (fun ct hct => h.singleItem hok st _ hp (hal ct hct))
+  · split
+    · cases Earverif.Adm.hoaItem a st ap <;> rfl
+    · rfl
+
+
+end FmtRenamed
+
+/-! ### bounds: allocated packs and channels are elements of the document -/
+
+theorem slots_bounds {f : Formats} (hok : FmtRefsOK f) {p : Nat} (_hp : p < f.packs.length) :
+    ∀ s ∈ slots f p, s.2 < f.channels.length := by
+  intro s hs
+  simp only [slots, List.mem_flatMap, List.mem_map] at hs
+  obtain ⟨path, _, ch, hch, rfl⟩ := hs
+  exact hok.chans _ ch hch
+
+theorem wrapOne_bounds {f : Formats} (hok : FmtRefsOK f) {p : Nat} (hp : p < f.packs.length) {ws : List WPack}
+    (h : wrapOne f p = .ok ws) :
+    ∀ w ∈ ws, w.root < f.packs.length ∧ ∀ c ∈ w.channels, c.cf < f.channels.length := by
+  have hs : ∀ q, q < f.packs.length → ∀ (g : List Nat × Nat → PackAlloc.Channel), (∀ s, (g s).cf = s.2) →
+      ∀ c ∈ (slots f q).map g, c.cf < f.channels.length := by
+    intro q hq g hg c hc
+    obtain ⟨s, hs, rfl⟩ := List.mem_map.1 hc
+    rw [hg]; exact slots_bounds hok hq s hs
+  unfold wrapOne at h
+  split at h
+  · cases h
+    intro w hw
+    simp only [List.mem_singleton] at hw
+    subst hw
+    exact ⟨hp, hs p hp _ (fun _ => rfl)⟩
+  · unfold wrapMatrix at h
+    dsimp only at h
+    split at h
+    · rename_i i o hi ho
+      cases h
+      intro w hw
+      simp only [List.mem_cons, List.not_mem_nil, or_false] at hw
+      rcases hw with rfl | rfl
+      · exact ⟨hp, hs i (hok.inp p i hi) _ (fun _ => rfl)⟩
+      · exact ⟨hp, hs p hp _ (fun _ => rfl)⟩
+    · cases h; intro w hw; cases hw
+    · split at h
+      · rename_i e he
+        have hel : e < f.packs.length := hok.enc p e (by rw [he]; simp)
+        split at h
+        · rename_i ei hei
+          cases h
+          intro w hw
+          simp only [List.mem_cons, List.not_mem_nil, or_false] at hw
+          rcases hw with rfl | rfl | rfl
+          · exact ⟨hp, hs e hel _ (fun _ => rfl)⟩
+          · exact ⟨hp, hs p hp _ (fun _ => rfl)⟩
+          · exact ⟨hp, hs ei (hok.inp e ei hei) _ (fun _ => rfl)⟩
+        · cases h
+      · cases h
+    · cases h
+
+theorem wrappedPacks_bounds {f : Formats} (hok : FmtRefsOK f) {wps : List WPack} (h : wrappedPacks f = .ok wps) :
+    ∀ w ∈ wps, w.root < f.packs.length ∧ ∀ c ∈ w.channels, c.cf < f.channels.length := by
+  rw [wrappedPacks_eq] at h
+  intro w hw
+  obtain ⟨p, hp, ws, hws, hmem⟩ := flatMapE_mem h hw
+  exact wrapOne_bounds hok (List.mem_range.1 hp) hws w hmem
+
+theorem outputOf_bounds {f : Formats} (hok : FmtRefsOK f) {uids : List Nat} {al : PackAlloc.Allocated}
+    (hroot : al.pack.root < f.packs.length) (hch : ∀ cs ∈ al.allocation, cs.1.cf < f.channels.length)
+    {ap : AllocPack} (h : outputOf f uids al = .ok ap) :
+    ap.pack < f.packs.length ∧ ∀ ct ∈ ap.alloc, ct.1 < f.channels.length := by
+  unfold outputOf at h
+  dsimp only at h
+  split at h
+  · cases h
+  · rename_i inputs hi
+    split at h
+    · cases h
+      refine ⟨hroot, fun ct hct => ?_⟩
+      obtain ⟨x, hx, hfx⟩ := mapE_mem hi hct
+      unfold slotEntry at hfx
+      split at hfx
+      · cases hfx
+      · cases hfx; exact hch x hx
+    · split at h
+      · cases h
+      · rename_i out ho
+        split at h
+        · cases h
+        · rename_i al' hal'
+          cases h
+          refine ⟨hok.outp _ out ho, fun ct hct => ?_⟩
+          obtain ⟨mc, _, hf⟩ := mapE_mem hal' hct
+          unfold matrixEntry at hf
+          split at hf
+          · cases hf
+          · rename_i oc hoc
+            split at hf
+            · cases hf
+            · cases hf; exact hok.mout mc oc hoc
+
+
+/-! ### the allocation problem of a state under re-numbering -/
+
+/-- track references of audioObjects are in range. -/
+def ObjTracksOK (a : Adm) : Prop := ∀ i u, some u ∈ (a.obj i).tracks → u < a.fmt.trackUIDs.length
+
+theorem filterMap_id_map {α β : Type} (g : α → β) : ∀ l : List (Option α),
+    (l.map (Option.map g)).filterMap id = (l.filterMap id).map g
+  | [] => rfl
+  | none :: xs => by simp [filterMap_id_map g xs]
+  | some x :: xs => by simp [filterMap_id_map g xs]
+
+theorem FmtRenamed.allocProblem {m : FmtMaps} {a a' : Adm} (h : FmtRenamed m a a') (hto : ObjTracksOK a)
+    (st : State) {p : List Nat} (hp : st.objPath = some p) {wps wps' : List WPack}
+    (hw : wps'.Perm (wps.map (renW m))) :
+    (allocProblem a' st wps').1.packs.Perm ((allocProblem a st wps).1.packs.map (renAPack m)) ∧
+    (allocProblem a' st wps').1.tracks = (allocProblem a st wps).1.tracks.map (renTrack m) ∧
+    (allocProblem a' st wps').1.packRefs = (allocProblem a st wps).1.packRefs.map (List.map m.σP) ∧
+    (allocProblem a' st wps').1.numSilent = (allocProblem a st wps).1.numSilent ∧
+    (allocProblem a' st wps').2 = (allocProblem a st wps).2.map m.σU ∧
+    ∀ u ∈ (allocProblem a st wps).2, u < a.fmt.trackUIDs.length := by
+  have hreal : ∀ u ∈ (a.obj (p.getLastD 0)).tracks.filterMap id, u < a.fmt.trackUIDs.length := by
+    intro u hu
+    simp only [List.mem_filterMap, id] at hu
+    obtain ⟨x, hx, rfl⟩ := hu
+    exact hto _ u hx
+  unfold Earverif.Adm.allocProblem
+  simp only [hp, h.obj, filterMap_id_map, List.length_map]
+  refine ⟨?_, ?_, ?_, ?_, ?_, hreal⟩
+  rotate_left 2
+  · first | trivial | rfl
+  · first | trivial | rfl
+  · first | trivial | rfl
+  · refine (hw.map _).trans ?_
+    simp only [List.map_map]
+    exact .refl _
+  · rw [List.zipIdx_map, List.map_map, List.map_map]
+    apply List.map_congr_left
+    intro ui hui
+    have hu : ui.1 < a.fmt.trackUIDs.length := hreal ui.1 (List.mem_zipIdx hui |>.2.2 ▸ List.getElem_mem _)
+    simp only [Function.comp, Prod.map, id, renTrack, h.uidChan _ hu, h.uidPack _ hu]
+
+
+/-! ### select_perm for the format part -/
+
+theorem mapE_perm {α β : Type} [Inhabited β] (f : α → Except Err β) {l₁ l₂ : List α} (hp : l₁.Perm l₂)
+    {ys : List β} (h : mapE f l₁ = .ok ys) : ∃ zs, mapE f l₂ = .ok zs ∧ ys.Perm zs := by
+  obtain ⟨hall, rfl⟩ := (mapE_ok_iff f l₁ ys).1 h
+  exact ⟨l₂.map (okVal f), (mapE_ok_iff f l₂ _).2 ⟨fun x hx => hall x (hp.mem_iff.2 hx), rfl⟩, hp.map _⟩
+
+/-- the allocation problems of the document are well-formed in the sense of C07 (`PackAlloc.WF`:
+distinct `AllocationPack`s and tracks, every pack has a channel, no channel format twice in a pack —
+consequences of `validate_structure`'s pack/channel multitree check). -/
+def AllocWF (a : Adm) : Prop :=
+  ∀ wps st, wrappedPacks a.fmt = .ok wps → PackAlloc.WF (allocProblem a st wps).1
+
+/-- per state: the allocated output packs of the re-numbered document are those of the original,
+renamed, up to order (uniqueness of the valid allocation, C07 `select_accepted_unique`). -/
+theorem fmtRenamed_selectPackMapping {m : FmtMaps} {a a' : Adm} (h : FmtRenamed m a a') (hok : FmtRefsOK a.fmt)
+    (hto : ObjTracksOK a) (hwf' : AllocWF a') (st : State) {p : List Nat} (hp : st.objPath = some p)
+    {aps aps' : List AllocPack} (hs : selectPackMapping a st = .ok aps)
+    (hs' : selectPackMapping a' st = .ok aps') :
+    aps'.Perm (aps.map (renAP m)) ∧
+      ∀ ap ∈ aps, ap.pack < a.fmt.packs.length ∧ ∀ ct ∈ ap.alloc, ct.1 < a.fmt.channels.length := by
+  unfold selectPackMapping at hs hs'
+  cases hw : wrappedPacks a.fmt with
+  | error e => simp [hw] at hs
+  | ok wps =>
+    obtain ⟨wps', hw', hwp⟩ := h.wrappedPacks hok hw
+    simp only [hw] at hs
+    simp only [hw'] at hs'
+    obtain ⟨hpk, htr, hrf, hns, hu', hul⟩ := h.allocProblem hto st hp hwp
+    cases hsel : PackAlloc.selectPackMapping (allocProblem a st wps).1 with
+    | conflicting => simp [hsel] at hs
+    | ambiguous => simp [hsel] at hs
+    | accepted s =>
+      cases hsel' : PackAlloc.selectPackMapping (allocProblem a' st wps').1 with
+      | conflicting => simp [hsel'] at hs'
+      | ambiguous => simp [hsel'] at hs'
+      | accepted s' =>
+        simp only [hsel] at hs
+        simp only [hsel', hu'] at hs'
+        have hv := PackAlloc.select_accepted_valid _ s hsel
+        have hv' := valid_rename m hpk htr hrf hns hv
+        have hperm : s'.Perm (s.map (renAllocated m)) :=
+          (PackAlloc.select_accepted_unique _ (hwf' wps' st hw') s' hsel').2 _ hv'
+        -- bounds of the allocated packs of the original document
+        have hwb := wrappedPacks_bounds hok hw
+        have hal : ∀ al ∈ s, al.pack.root < a.fmt.packs.length ∧
+            ∀ cs ∈ al.allocation, cs.1.cf < a.fmt.channels.length := by
+          intro al hal
+          have hmem := hv.packs_mem al hal
+          simp only [Earverif.Adm.allocProblem, List.mem_map] at hmem
+          obtain ⟨w, hwm, hwe⟩ := hmem
+          have hb := hwb w hwm
+          refine ⟨by rw [← hwe]; exact hb.1, fun cs hcs => ?_⟩
+          have hch := hv.channels al hal
+          have : cs.1 ∈ al.pack.channels := by
+            rw [← hch]; exact List.mem_map.2 ⟨cs, hcs, rfl⟩
+          rw [← hwe] at this
+          exact hb.2 _ this
+        have hmapped : mapE (outputOf a'.fmt ((allocProblem a st wps).2.map m.σU)) (s.map (renAllocated m)) =
+            .ok (aps.map (renAP m)) := by
+          rw [mapE_comm2 (f := outputOf a.fmt (allocProblem a st wps).2) (r := renAP m)
+            (fun al hal' => h.outputOf hok hul al (hal al hal').1 (hal al hal').2), hs]
+          rfl
+        obtain ⟨zs, hzs, hpz⟩ := mapE_perm _ hperm.symm hmapped
+        rw [hs'] at hzs
+        cases hzs
+        refine ⟨hpz.symm, fun ap hap => ?_⟩
+        obtain ⟨al, halm, hout⟩ := mapE_mem hs hap
+        exact outputOf_bounds hok (hal al halm).1 (hal al halm).2 hout
+
+
+theorem fmtRefsOK_of_refsInRange {a : Adm} (h : a.refsInRange = true) : FmtRefsOK a.fmt := by
+  unfold Adm.refsInRange at h
+  simp only [Bool.and_eq_true, List.all_eq_true, decide_eq_true_eq] at h
+  obtain ⟨⟨⟨⟨⟨⟨⟨_, _⟩, _⟩, hpk⟩, hcn⟩, _⟩, _⟩, _⟩ := h
+  have hp : ∀ p, a.fmt.pack p ∈ a.fmt.packs ∨ a.fmt.pack p = default := fun p => getD_mem_or_default _ _ _
+  have hc : ∀ c, a.fmt.chan c ∈ a.fmt.channels ∨ a.fmt.chan c = default := fun c => getD_mem_or_default _ _ _
+  refine ⟨?_, ?_, ?_, ?_, ?_, ?_, ?_⟩
+  · intro p x hx
+    rcases hp p with hm | hd
+    · exact (hpk _ hm).1.1.1.2 x hx
+    · rw [hd] at hx; cases hx
+  · intro p x hx
+    rcases hp p with hm | hd
+    · exact (hpk _ hm).1.1.1.1 x hx
+    · rw [hd] at hx; cases hx
+  · intro p q hq
+    rcases hp p with hm | hd
+    · have := (hpk _ hm).1.2; rw [hq] at this; simpa using this
+    · rw [hd] at hq; cases hq
+  · intro p q hq
+    rcases hp p with hm | hd
+    · have := (hpk _ hm).2; rw [hq] at this; simpa using this
+    · rw [hd] at hq; cases hq
+  · intro p x hx
+    rcases hp p with hm | hd
+    · exact (hpk _ hm).1.1.2 x hx
+    · rw [hd] at hx; cases hx
+  · intro c q hq
+    rcases hc c with hm | hd
+    · have := (hcn _ hm).1; rw [hq] at this; simpa using this
+    · rw [hd] at hq; cases hq
+  · intro c k hk
+    rcases hc c with hm | hd
+    · exact (hcn _ hm).2 k hk
+    · rw [hd] at hk; cases hk
+
+theorem objTracksOK_of_refsInRange {a : Adm} (h : a.refsInRange = true) : ObjTracksOK a := by
+  unfold Adm.refsInRange at h
+  simp only [Bool.and_eq_true, List.all_eq_true, decide_eq_true_eq] at h
+  obtain ⟨⟨⟨⟨⟨⟨⟨_, _⟩, ho⟩, _⟩, _⟩, _⟩, _⟩, _⟩ := h
+  intro i u hu
+  unfold Adm.obj at hu
+  rcases getD_mem_or_default a.objects i default with hm | hd
+  · have := (ho _ hm).1.1.2 (some u) hu
+    simpa using this
+  · rw [hd] at hu; cases hu
+
+namespace FmtRenamed
+variable {m : FmtMaps} {a a' : Adm}
+
+theorem nobj (h : FmtRenamed m a a') : a'.objects.length = a.objects.length := by
+  rw [h.objects, List.length_map]
+
+theorem subs_eq (h : FmtRenamed m a a') : a'.subs = a.subs := by
+  funext i; unfold Adm.subs; rw [h.obj]
+
+theorem specStates_eq (h : FmtRenamed m a a') (prog : Option Nat) (ign : List Nat) :
+    specStates a' prog ign = specStates a prog ign := by
+  have hroot : rootObjects a' = rootObjects a := by
+    unfold rootObjects
+    rw [h.nobj, h.objects, List.flatMap_map]
+  have hpaths : ∀ r, specPaths a' ign r = specPaths a ign r := by
+    intro r; unfold specPaths objectPathsFrom; rw [h.subs_eq, h.nobj]
+  have hno : a'.objects = [] ↔ a.objects = [] := by
+    rw [← List.length_eq_zero_iff, ← List.length_eq_zero_iff, h.nobj]
+  unfold Earverif.Adm.specStates
+  simp only [h.programmes, hno, hroot, hpaths, h.prog, h.cont]
+
+theorem selectComplementary_eq (h : FmtRenamed m a a') (sel : List Nat) :
+    selectComplementary a' sel = selectComplementary a sel := by
+  have hroots : compRoots a' = compRoots a := by
+    unfold compRoots; simp only [h.nobj, h.obj]
+  have hg : compGroup a' = compGroup a := by
+    funext r; unfold compGroup; rw [h.obj]
+  unfold Earverif.Adm.selectComplementary compAllSelected
+  simp only [hroots, hg]
+
+end FmtRenamed
+
+theorem specStates_some_path {a : Adm} (hne : ¬ (a.programmes = [] ∧ a.objects = [])) {prog : Option Nat}
+    {ign : List Nat} {st : State} (h : st ∈ specStates a prog ign) : ∃ p, st.objPath = some p := by
+  unfold specStates at h
+  simp only [hne, if_false] at h
+  cases prog with
+  | none =>
+    simp only [List.mem_flatMap, List.mem_map] at h
+    obtain ⟨_, _, q, _, rfl⟩ := h
+    exact ⟨q, rfl⟩
+  | some pr =>
+    simp only [List.mem_flatMap, List.mem_map] at h
+    obtain ⟨_, _, _, _, q, _, rfl⟩ := h
+    exact ⟨q, rfl⟩
+
+/-- per state: the items of the re-numbered document are a permutation of the renamed items. -/
+theorem fmtRenamed_itemsOfState {m : FmtMaps} {a a' : Adm} (h : FmtRenamed m a a') (hok : FmtRefsOK a.fmt)
+    (hto : ObjTracksOK a) (hwf' : AllocWF a') (st : State) {p : List Nat} (hp : st.objPath = some p)
+    {its its' : List Item} (hs : itemsOfState a st = .ok its) (hs' : itemsOfState a' st = .ok its') :
+    its'.Perm (its.map (renItemF m)) := by
+  unfold itemsOfState at hs hs'
+  cases hm : selectPackMapping a st with
+  | error e => simp [hm] at hs
+  | ok aps =>
+    cases hm' : selectPackMapping a' st with
+    | error e => simp [hm'] at hs'
+    | ok aps' =>
+      simp only [hm] at hs
+      simp only [hm'] at hs'
+      obtain ⟨hperm, hb⟩ := fmtRenamed_selectPackMapping h hok hto hwf' st hp hm hm'
+      have hmapped : flatMapE (itemsOfPack a' st) (aps.map (renAP m)) = .ok (its.map (renItemF m)) := by
+        rw [flatMapE_map, flatMapE_map_comm (f := itemsOfPack a st) (g := renItemF m)
+          (fun ap hap => h.itemsOfPack hok st (hb ap hap).1 (hb ap hap).2), hs]
+        rfl
+      obtain ⟨zs, hzs, hpz⟩ := flatMapE_perm _ hperm.symm hmapped
+      rw [hs'] at hzs
+      cases hzs
+      exact hpz.symm
+
+/-- **select_perm_formats_partial**: re-numbering the audioPackFormats, audioChannelFormats and
+audioTrackUIDs (and stream/track formats) — i.e. declaring them in another order with every
+reference remapped — permutes the selected items, with pack and channel indices renamed.
+PARTIAL: (i) stated for documents with a programme or objects (in CHNA-only mode the allocation
+takes the audioTrackUIDs in declaration order and the position of a track is its identity in the
+allocator model); (ii) assumes that selection succeeds on both documents — that it succeeds on the
+re-numbered document whenever it does on the original needs the converse transfer of valid
+allocations (C07's `accept_iff_unique` would then apply); (iii) `AllocWF a'`: C07's well-formedness of
+the allocation problems (a consequence of the multitree validation). -/
+theorem select_perm_formats_partial {m : FmtMaps} {a a' : Adm} (h : FmtRenamed m a a')
+    (hwf : a.refsInRange = true) (hne : ¬ (a.programmes = [] ∧ a.objects = [])) (hwf' : AllocWF a')
+    (given : Option Nat) (sel : List Nat) {items items' : List Item}
+    (hs : selectRenderingItems a given sel = .ok items)
+    (hs' : selectRenderingItems a' given sel = .ok items') :
+    items'.Perm (items.map (renItemF m)) := by
+  have hok := fmtRefsOK_of_refsInRange hwf
+  have hto := objTracksOK_of_refsInRange hwf
+  rw [select_eq_spec] at hs hs'
+  unfold specSelect at hs hs'
+  rw [h.selectComplementary_eq, selectProgramme_congr (a := a) (a' := a') (by rw [h.programmes]) given] at hs'
+  cases hw : wrappedPacks a.fmt with
+  | error e => simp [hw] at hs
+  | ok wps =>
+    cases hw' : wrappedPacks a'.fmt with
+    | error e => simp [hw'] at hs'
+    | ok wps' =>
+      simp only [hw] at hs
+      simp only [hw'] at hs'
+      cases hc : selectComplementary a sel with
+      | error e => simp [hc] at hs
+      | ok ign =>
+        simp only [hc, h.specStates_eq] at hs hs'
+        obtain ⟨hall, rfl⟩ := (flatMapE_ok_iff _ _ _).1 hs
+        obtain ⟨hall', rfl⟩ := (flatMapE_ok_iff _ _ _).1 hs'
+        rw [List.map_flatMap]
+        refine perm_flatMap_congr (.refl _) fun st hst => ?_
+        obtain ⟨p, hp⟩ := specStates_some_path hne hst
+        obtain ⟨its, hits⟩ := hall st hst
+        obtain ⟨its', hits'⟩ := hall' st hst
+        have := fmtRenamed_itemsOfState h hok hto hwf' st hp hits hits'
+        simpa [okVal, hits, hits'] using this
+
+
+/-! ### `rename` form and the well-formedness hypothesis made checkable -/
+
+theorem nodup_of_nodup_map {α β : Type} (f : α → β) : ∀ {l : List α}, (l.map f).Nodup → l.Nodup
+  | [], _ => List.nodup_nil
+  | x :: xs, h => by
+    simp only [List.map_cons, List.nodup_cons] at h ⊢
+    exact ⟨fun hx => h.1 (List.mem_map.2 ⟨x, hx, rfl⟩), nodup_of_nodup_map f h.2⟩
+
+/-- the part of `PackAlloc.WF` that depends on the `AllocationPack`s only (decidable on a concrete
+document). -/
+def PacksWF (wps : List WPack) : Prop :=
+  (wps.map fun w => (⟨w.id, w.root, w.channels⟩ : PackAlloc.Pack)).Nodup ∧
+  (∀ w ∈ wps, w.channels ≠ []) ∧ ∀ w ∈ wps, (w.channels.map (·.cf)).Nodup
+
+instance (wps : List WPack) : Decidable (PacksWF wps) := by unfold PacksWF; exact inferInstance
+
+theorem allocWF_of_packsWF {a : Adm} (h : ∀ wps, wrappedPacks a.fmt = .ok wps → PacksWF wps) : AllocWF a := by
+  intro wps st hw
+  obtain ⟨h1, h2, h3⟩ := h wps hw
+  refine ⟨h1, ?_, ?_, ?_⟩
+  · apply nodup_of_nodup_map (·.id)
+    simp only [allocProblem, List.map_map]
+    have : ∀ l : List Nat, (l.zipIdx.map ((fun (t : PackAlloc.Track) => t.id) ∘ fun ui =>
+        (⟨ui.2, trackChannel a.fmt ui.1, (a.fmt.uid ui.1).pack⟩ : PackAlloc.Track))) = List.range' 0 l.length := by
+      intro l
+      rw [← List.zipIdx_map_snd 0 l]
+      rfl
+    rw [this]
+    exact List.nodup_range' 1
+  · intro p hp
+    simp only [allocProblem, List.mem_map] at hp
+    obtain ⟨w, hw, rfl⟩ := hp
+    exact h2 w hw
+  · intro p hp
+    simp only [allocProblem, List.mem_map] at hp
+    obtain ⟨w, hw, rfl⟩ := hp
+    exact h3 w hw
+
+def renRef (m : FmtMaps) : TrackRef → TrackRef
+  | .channel c => .channel (m.σC c)
+  | .trackFormat t => .trackFormat t
+
+def renUid (m : FmtMaps) (u : TrackUID) : TrackUID := { u with pack := m.σP u.pack, ref := renRef m u.ref }
+
+/-- the format part re-declared in the order given by `m` (`mi` = inverse maps), references remapped. -/
+def renameFormats (m mi : FmtMaps) (a : Adm) : Adm :=
+  let f := a.fmt
+  { a with
+    objects := a.objects.map fun o =>
+      { o with packs := o.packs.map m.σP, tracks := o.tracks.map (Option.map m.σU) },
+    fmt := {
+      packs := (List.range f.packs.length).map fun j => renPack m (f.pack (mi.σP j)),
+      channels := (List.range f.channels.length).map fun j => renChan m (f.chan (mi.σC j)),
+      streamFormats := f.streamFormats.map m.σC,
+      trackFormats := f.trackFormats,
+      trackUIDs := (List.range f.trackUIDs.length).map fun j => renUid m (f.uid (mi.σU j)) } }
+
+theorem getD_range_map {β : Type} (g : Nat → β) (d : β) {n i : Nat} (hi : i < n) :
+    ((List.range n).map g).getD i d = g i := by
+  simp [List.getD_eq_getElem?_getD, List.getElem?_map, List.getElem?_range hi]
+
+theorem renameFormats_renamed {m mi : FmtMaps} {a : Adm} (hwf : a.refsInRange = true)
+    (hP : ((List.range a.fmt.packs.length).map m.σP).Perm (List.range a.fmt.packs.length))
+    (hC : ((List.range a.fmt.channels.length).map m.σC).Perm (List.range a.fmt.channels.length))
+    (hU : ((List.range a.fmt.trackUIDs.length).map m.σU).Perm (List.range a.fmt.trackUIDs.length))
+    (hiP : ∀ i, i < a.fmt.packs.length → mi.σP (m.σP i) = i)
+    (hiC : ∀ i, i < a.fmt.channels.length → mi.σC (m.σC i) = i)
+    (hiU : ∀ i, i < a.fmt.trackUIDs.length → mi.σU (m.σU i) = i) :
+    FmtRenamed m a (renameFormats m mi a) := by
+  refine ⟨rfl, rfl, rfl, by simp [renameFormats], by simp [renameFormats], by simp [renameFormats],
+    ?_, ?_, ?_, ?_, ?_, hP, hC⟩
+  · intro p hp
+    unfold Formats.pack renameFormats
+    simp only
+    rw [getD_range_map _ _ (perm_lt hP hp), hiP p hp]
+    rfl
+  · intro c hc
+    unfold Formats.chan renameFormats
+    simp only
+    rw [getD_range_map _ _ (perm_lt hC hc), hiC c hc]
+    rfl
+  · intro u hu
+    unfold Formats.uid renameFormats
+    simp only
+    rw [getD_range_map _ _ (perm_lt hU hu), hiU u hu]
+    rfl
+  · intro u hu
+    unfold Formats.uid renameFormats
+    simp only
+    rw [getD_range_map _ _ (perm_lt hU hu), hiU u hu]
+    rfl
+  · intro u hu
+    have hr : (renameFormats m mi a).fmt.uid (m.σU u) = renUid m (a.fmt.uid u) := by
+      unfold Formats.uid renameFormats
+      simp only
+      rw [getD_range_map _ _ (perm_lt hU hu), hiU u hu]
+      rfl
+    unfold trackChannel
+    rw [hr]
+    simp only [renUid]
+    cases href : (a.fmt.uid u).ref with
+    | channel c => rfl
+    | trackFormat t =>
+      simp only [renRef, renameFormats]
+      -- the referenced track/stream formats are in range
+      unfold Adm.refsInRange at hwf
+      simp only [Bool.and_eq_true, List.all_eq_true, decide_eq_true_eq] at hwf
+      obtain ⟨⟨⟨_, _⟩, htf⟩, huid⟩ := hwf
+      have hmem : a.fmt.uid u ∈ a.fmt.trackUIDs := by
+        unfold Formats.uid
+        simp [List.getD_eq_getElem?_getD, List.getElem?_eq_getElem hu]
+      have ht := (huid _ hmem).2
+      rw [href] at ht
+      simp only [decide_eq_true_eq] at ht
+      have hs : a.fmt.trackFormats.getD t 0 < a.fmt.streamFormats.length := by
+        have : a.fmt.trackFormats.getD t 0 ∈ a.fmt.trackFormats := by
+          simp [List.getD_eq_getElem?_getD, List.getElem?_eq_getElem ht]
+        exact htf _ this
+      rw [List.getD_eq_getElem?_getD] at hs
+      simp only [List.getD_eq_getElem?_getD, List.getElem?_map, List.getElem?_eq_getElem hs,
+        Option.map_some, Option.getD_some]
+
+
+/-- decidable form of `AllocWF`. -/
+def allocWFCheck (a : Adm) : Bool :=
+  match wrappedPacks a.fmt with
+  | .ok wps => decide (PacksWF wps)
+  | .error _ => true
+
+theorem allocWF_of_check {a : Adm} (h : allocWFCheck a = true) : AllocWF a := by
+  apply allocWF_of_packsWF
+  intro wps hw
+  unfold allocWFCheck at h
+  rw [hw] at h
+  exact of_decide_eq_true h
+
+/-- **select_perm_formats_partial** in `rename` form. -/
+theorem select_perm_formats_rename_partial {m mi : FmtMaps} {a : Adm} (hwf : a.refsInRange = true)
+    (hP : ((List.range a.fmt.packs.length).map m.σP).Perm (List.range a.fmt.packs.length))
+    (hC : ((List.range a.fmt.channels.length).map m.σC).Perm (List.range a.fmt.channels.length))
+    (hU : ((List.range a.fmt.trackUIDs.length).map m.σU).Perm (List.range a.fmt.trackUIDs.length))
+    (hiP : ∀ i, i < a.fmt.packs.length → mi.σP (m.σP i) = i)
+    (hiC : ∀ i, i < a.fmt.channels.length → mi.σC (m.σC i) = i)
+    (hiU : ∀ i, i < a.fmt.trackUIDs.length → mi.σU (m.σU i) = i)
+    (hne : ¬ (a.programmes = [] ∧ a.objects = [])) (hcheck : allocWFCheck (renameFormats m mi a) = true)
+    (given : Option Nat) (sel : List Nat) {items items' : List Item}
+    (hs : selectRenderingItems a given sel = .ok items)
+    (hs' : selectRenderingItems (renameFormats m mi a) given sel = .ok items') :
+    items'.Perm (items.map (renItemF m)) :=
+  select_perm_formats_partial (renameFormats_renamed hwf hP hC hU hiP hiC hiU) hwf hne
+    (allocWF_of_check hcheck) given sel hs hs'
+
 /-! ## Non-vacuity: a concrete document satisfying the hypotheses -/
 
 /-- One programme, one content `[o0, o4, o5]`; `o0 → {o1, o2}`, `o1 → o3`, `o2 → o3` (the shared
@@ -911,15 +2720,26 @@ def exDoc : Adm :=
     objects := [mkObj [] [] [1, 2] [], mkObj [] [] [3] [], mkObj [] [] [3] [],
                 mkObj [1] [some 1, none] [] [], mkObj [0] [some 0] [] [5], mkObj [0] [some 0] [] []],
     fmt := {
-      packs := [⟨3, [0], [], none, none, none, none, none⟩, ⟨1, [1, 2], [], none, none, none, none, none⟩],
-      channels := [⟨3, none, none, [0], default⟩, ⟨1, none, none, [1], default⟩, ⟨1, none, none, [2], default⟩],
+      packs := [{ type := 3, channels := [0], subPacks := [], importance := none, absDist := none,
+                  normalization := none, nfcRefDist := none, screenRef := none },
+                { type := 1, channels := [1, 2], subPacks := [], importance := none, absDist := none,
+                  normalization := none, nfcRefDist := none, screenRef := none }],
+      channels := [{ type := 3, lowPass := none, highPass := none, blocks := [0], hoa := default },
+                   { type := 1, lowPass := none, highPass := none, blocks := [1], hoa := default },
+                   { type := 1, lowPass := none, highPass := none, blocks := [2], hoa := default }],
       streamFormats := [], trackFormats := [],
       trackUIDs := [⟨1, .channel 0, 0⟩, ⟨2, .channel 1, 1⟩] } }
 
 /-- canonical view of an item for the examples: (object path, channel, track or silence). -/
-def Item.brief (it : Item) : Option (List Nat) × List Nat × List (Option Nat) := (it.objPath, it.channels, it.tracks)
+def specBrief : TSpec → Option Int
+  | .direct i => some i
+  | .silent => none
+  | _ => some (-1)
 
-def briefs : Except Err (List Item) → Option (List (Option (List Nat) × List Nat × List (Option Nat)))
+def Item.brief (it : Item) : Option (List Nat) × List Nat × List (Option Int) :=
+  (it.objPath, it.channels, it.tracks.map specBrief)
+
+def briefs : Except Err (List Item) → Option (List (Option (List Nat) × List Nat × List (Option Int)))
   | .ok l => some (l.map Item.brief)
   | .error _ => none
 
@@ -994,5 +2814,64 @@ example : briefs (selectRenderingItems exDoc' none []) =
     some [(some [0, 2, 3], [1], [some 1]), (some [0, 2, 3], [2], [none]),
           (some [0, 1, 3], [1], [some 1]), (some [0, 1, 3], [2], [none]),
           (some [4], [0], [some 0])] := by decide
+
+/-- `exDoc` with its audioObjects re-declared in a rotated order (object `i` becomes object
+`(i+2) mod 6`), all references remapped: hypotheses of `select_perm_objects_rename` hold, and the
+selected items are the renamed ones. -/
+def exRho (i : Nat) : Nat := (i + 2) % 6
+def exRhoInv (j : Nat) : Nat := (j + 4) % 6
+
+example : ((List.range exDoc.objects.length).map exRho).Perm (List.range exDoc.objects.length) := by decide
+example : ∀ i, i < exDoc.objects.length → exRhoInv (exRho i) = i := by
+  intro i hi
+  have : exDoc.objects.length = 6 := rfl
+  unfold exRho exRhoInv; omega
+example : exDoc.refsInRange = true := by decide
+
+example : briefs (selectRenderingItems (renameObjects exRho exRhoInv exDoc) none []) =
+    some [(some [2, 3, 5], [1], [some 1]), (some [2, 3, 5], [2], [none]),
+          (some [2, 4, 5], [1], [some 1]), (some [2, 4, 5], [2], [none]),
+          (some [0], [0], [some 0])] := by decide
+
+/-- `exDoc` with packs 0/1 swapped, channels rotated and the two audioTrackUIDs swapped (references
+remapped): the hypotheses of `select_perm_formats_rename_partial` hold and selection returns the
+renamed items. -/
+def exM : FmtMaps :=
+  ⟨fun p => if p = 0 then 1 else if p = 1 then 0 else p, fun c => (c + 1) % 3,
+   fun u => if u = 0 then 1 else if u = 1 then 0 else u⟩
+def exMi : FmtMaps :=
+  ⟨fun p => if p = 0 then 1 else if p = 1 then 0 else p, fun c => (c + 2) % 3,
+   fun u => if u = 0 then 1 else if u = 1 then 0 else u⟩
+
+example : ((List.range exDoc.fmt.packs.length).map exM.σP).Perm (List.range exDoc.fmt.packs.length) := by decide
+example : ((List.range exDoc.fmt.channels.length).map exM.σC).Perm (List.range exDoc.fmt.channels.length) := by decide
+example : ((List.range exDoc.fmt.trackUIDs.length).map exM.σU).Perm (List.range exDoc.fmt.trackUIDs.length) := by decide
+example : ∀ i, i < exDoc.fmt.packs.length → exMi.σP (exM.σP i) = i := by
+  intro i hi
+  have : exDoc.fmt.packs.length = 2 := rfl
+  match i with
+  | 0 => rfl
+  | 1 => rfl
+  | _ + 2 => omega
+example : ∀ i, i < exDoc.fmt.channels.length → exMi.σC (exM.σC i) = i := by
+  intro i hi
+  have : exDoc.fmt.channels.length = 3 := rfl
+  show ((i + 1) % 3 + 2) % 3 = i
+  omega
+example : ∀ i, i < exDoc.fmt.trackUIDs.length → exMi.σU (exM.σU i) = i := by
+  intro i hi
+  have : exDoc.fmt.trackUIDs.length = 2 := rfl
+  match i with
+  | 0 => rfl
+  | 1 => rfl
+  | _ + 2 => omega
+example : allocWFCheck (renameFormats exM exMi exDoc) = true := by decide
+example : ¬ (exDoc.programmes = [] ∧ exDoc.objects = []) := by decide
+
+/-- channels `1, 2` of the stereo pack became `2, 0`; pack indices swapped. -/
+example : briefs (selectRenderingItems (renameFormats exM exMi exDoc) none []) =
+    some [(some [0, 1, 3], [2], [some 1]), (some [0, 1, 3], [0], [none]),
+          (some [0, 2, 3], [2], [some 1]), (some [0, 2, 3], [0], [none]),
+          (some [4], [1], [some 0])] := by decide
 
 end Earverif.Adm
